@@ -318,6 +318,13 @@ Proof.
     + intros [a' [[->|H1] H2]]; [congruence | eauto].
 Qed.
 
+Lemma filter_map_ext_in : forall {A B} (f g : A -> option B) l,
+  (forall a, In a l -> f a = g a) -> filter_map f l = filter_map g l.
+Proof.
+  intros A B f g l. induction l as [|a l IH]; cbn [filter_map]; intros H; auto.
+  rewrite (H a) by (left; auto). rewrite IH; auto. intros; apply H; right; auto.
+Qed.
+
 Lemma NoDup_map_filter : forall {A B} (f : A -> B) (g : A -> bool) l,
   NoDup (map f l) -> NoDup (map f (filter g l)).
 Proof.
@@ -347,55 +354,120 @@ Variable E : Type.
 Variable max : N.
 Variable vis : path -> bool.
 Variable pol : bool -> N -> path -> option E.
+Variable fl : list N.                 (* the live LLGR-stale flags when the change is processed *)
+Hypothesis pol_acc : pol_marks_after_accept E pol.
 
 Let aptx := negb (max =? 1).
 Notation SEL := (sel E max vis pol).
-Notation PC := (process_change E ByNet max aptx vis pol []).
+Notation PC := (process_change E ByNet max aptx vis pol fl).
+
+Definition lv (q : path) : bool := llgr_of fl q.
 
 Definition T (p : ptx E) (base : key -> option E) (k : key) : option E :=
   match pview E p k with Some o => o | None => base k end.
 
-Definition selfun (net : N) (q : path) : option (N * E) :=
-  match pol false net q with Some e => Some (p_pid q, e) | None => None end.
+Definition selfun (m : path -> bool) (net : N) (q : path) : option (N * E) :=
+  match pol (m q) net q with Some e => Some (p_pid q, e) | None => None end.
 
-Lemma sel_ap : max <> 1 -> forall net paths,
-  SEL net paths = filter_map (selfun net) (firstn (N.to_nat max) (filter vis paths)).
-Proof. intros Hm net paths. unfold sel. apply N.eqb_neq in Hm. rewrite Hm. reflexivity. Qed.
+Definition window (paths : list path) : list path := firstn (N.to_nat max) (filter vis paths).
 
-Lemma sel_nil : forall net, SEL net [] = [].
+Lemma sel_ap : max <> 1 -> forall m net paths,
+  SEL m net paths = filter_map (selfun m net) (window paths).
+Proof. intros Hm m net paths. unfold sel. apply N.eqb_neq in Hm. rewrite Hm. reflexivity. Qed.
+
+Lemma sel_nil : forall m net, SEL m net [] = [].
 Proof.
   intros; unfold sel. destruct (negb (max =? 1)); auto.
   cbn [filter]. rewrite firstn_nil. reflexivity.
 Qed.
 
-Lemma sel_In_ap : max <> 1 -> forall net paths w e,
-  In (w, e) (SEL net paths) -> exists q, In q paths /\ p_pid q = w /\ pol false net q = Some e.
+Lemma window_In : forall paths q, In q (window paths) -> In q paths.
+Proof. intros paths q Hq. apply firstn_In' in Hq. apply filter_In in Hq as [Hq _]. exact Hq. Qed.
+
+Lemma sel_In_ap : max <> 1 -> forall m net paths w e,
+  In (w, e) (SEL m net paths) ->
+  exists q, In q (window paths) /\ In q paths /\ p_pid q = w /\ pol (m q) net q = Some e.
 Proof.
-  intros Hm net paths w e H. rewrite sel_ap in H by auto. apply In_filter_map in H as [q [Hq Hs]].
-  apply firstn_In' in Hq. apply filter_In in Hq as [Hq _]. unfold selfun in Hs.
-  destruct (pol false net q) eqn:Hp; inversion Hs; subst. eauto.
+  intros Hm m net paths w e H. rewrite sel_ap in H by auto. apply In_filter_map in H as [q [Hq Hs]].
+  unfold selfun in Hs. destruct (pol (m q) net q) eqn:Hp; inversion Hs; subst.
+  exists q. repeat split; auto. apply window_In; auto.
 Qed.
 
-Lemma sel_fst_sub : max <> 1 -> forall net l,
-  NoDup (map p_pid l) -> NoDup (map fst (filter_map (selfun net) l)).
+Lemma sel_fst_sub : max <> 1 -> forall m net l,
+  NoDup (map p_pid l) -> NoDup (map fst (filter_map (selfun m net) l)).
 Proof.
-  intros Hm net. induction l as [|q l IH]; cbn [filter_map map]; intros H; [constructor|].
-  inversion H as [|? ? Hn Hd]; subst. unfold selfun at 1. destruct (pol false net q) eqn:Hp; auto.
+  intros Hm m net. induction l as [|q l IH]; cbn [filter_map map]; intros H; [constructor|].
+  inversion H as [|? ? Hn Hd]; subst. unfold selfun at 1. destruct (pol (m q) net q) eqn:Hp; auto.
   cbn [map fst]. constructor; auto. intros Hin. apply Hn.
   apply in_map_iff in Hin as [[w e'] [Hw Hi]]. cbn [fst] in Hw; subst w.
   apply In_filter_map in Hi as [q' [Hq' Hs]]. unfold selfun in Hs.
-  destruct (pol false net q'); inversion Hs. apply in_map_iff. exists q'; split; auto.
+  destruct (pol (m q') net q'); inversion Hs. apply in_map_iff. exists q'; split; auto.
 Qed.
 
-Lemma sel_nodup : max <> 1 -> forall net paths,
-  NoDup (map p_pid paths) -> NoDup (map fst (SEL net paths)).
+Lemma window_nodup : forall paths, NoDup (map p_pid paths) -> NoDup (map p_pid (window paths)).
+Proof. intros. apply NoDup_map_firstn. apply NoDup_map_filter. auto. Qed.
+
+Lemma sel_nodup : max <> 1 -> forall m net paths,
+  NoDup (map p_pid paths) -> NoDup (map fst (SEL m net paths)).
 Proof.
-  intros Hm net paths H. rewrite sel_ap by auto. apply sel_fst_sub; auto.
-  apply NoDup_map_firstn. apply NoDup_map_filter. exact H.
+  intros Hm m net paths H. rewrite sel_ap by auto. apply sel_fst_sub; auto.
+  apply window_nodup; auto.
 Qed.
 
-Lemma top_n_sel : max <> 1 -> forall c, top_n E max vis pol [] c = SEL (c_net c) (c_paths c).
+Lemma top_n_sel : max <> 1 -> forall c, top_n E max vis pol fl c = SEL lv (c_net c) (c_paths c).
 Proof. intros Hm c. rewrite sel_ap by auto. reflexivity. Qed.
+
+(* which path ids are selected does not depend on the markers *)
+Lemma pol_some_indep : forall b b' net q, pol b net q <> None -> pol b' net q <> None.
+Proof. intros b b' net q H H'. apply H. apply pol_acc. apply pol_acc in H'. exact H'. Qed.
+
+Lemma selfun_fst : forall m net q x, selfun m net q = Some x -> fst x = p_pid q.
+Proof. intros m net q x H. unfold selfun in H. destruct (pol (m q) net q); inversion H; reflexivity. Qed.
+
+Lemma selfun_none : forall m m' net q, selfun m net q = None -> selfun m' net q = None.
+Proof.
+  intros m m' net q H. unfold selfun in *. destruct (pol (m q) net q) eqn:H1; [discriminate|].
+  destruct (pol (m' q) net q) eqn:H2; auto.
+  exfalso. apply (pol_some_indep (m' q) (m q) net q); [rewrite H2; discriminate | exact H1].
+Qed.
+
+Lemma selfun_pids : forall m m' net l,
+  map fst (filter_map (selfun m net) l) = map fst (filter_map (selfun m' net) l).
+Proof.
+  intros m m' net. induction l as [|q l IH]; cbn [filter_map map]; auto.
+  destruct (selfun m net q) as [x|] eqn:H1; destruct (selfun m' net q) as [y|] eqn:H2.
+  - cbn [map]. rewrite (selfun_fst _ _ _ _ H1), (selfun_fst _ _ _ _ H2). f_equal. exact IH.
+  - rewrite (selfun_none m' m net q H2) in H1. discriminate.
+  - rewrite (selfun_none m m' net q H1) in H2. discriminate.
+  - exact IH.
+Qed.
+
+Lemma sel_pids : forall m m' net paths, map fst (SEL m net paths) = map fst (SEL m' net paths).
+Proof.
+  intros m m' net paths. unfold sel. destruct (negb (max =? 1)).
+  - apply selfun_pids.
+  - destruct paths as [|b t]; auto. destruct (vis b); auto.
+    destruct (pol (m b) net b) eqn:H1, (pol (m' b) net b) eqn:H2; auto.
+    + exfalso. apply (pol_some_indep (m b) (m' b) net b); [rewrite H1; discriminate | exact H2].
+    + exfalso. apply (pol_some_indep (m' b) (m b) net b); [rewrite H2; discriminate | exact H1].
+Qed.
+
+Lemma sel_ext : forall m m' net paths, (forall q, In q paths -> m q = m' q) ->
+  SEL m net paths = SEL m' net paths.
+Proof.
+  intros m m' net paths H. unfold sel. destruct (negb (max =? 1)).
+  - apply filter_map_ext_in. intros q Hq. unfold selfun. rewrite (H q); auto. apply window_In; auto.
+  - destruct paths as [|b t]; auto. rewrite (H b) by (left; auto). reflexivity.
+Qed.
+
+Lemma sel_assoc_window : max <> 1 -> forall m net paths q e,
+  NoDup (map p_pid paths) -> In q (window paths) -> pol (m q) net q = Some e ->
+  assoc (p_pid q) (SEL m net paths) = Some e.
+Proof.
+  intros Hm m net paths q e Hnd Hq Hp. apply In_assoc_nodup.
+  - apply sel_nodup; auto.
+  - rewrite sel_ap by auto. apply In_filter_map. exists q. split; auto. unfold selfun. now rewrite Hp.
+Qed.
 
 Lemma aptx_true : max <> 1 -> aptx = true.
 Proof. intros H. unfold aptx. apply N.eqb_neq in H. now rewrite H. Qed.
@@ -429,11 +501,11 @@ Definition f2 (c : change) : emap * sink E -> N * E -> emap * sink E :=
              else s.
 
 Lemma proc_ap_eq : forall c st,
-  proc_ap E ByNet max aptx vis pol [] c st =
+  proc_ap E ByNet max aptx vis pol fl c st =
   if negb (c_ac c) then st else
-  fold_left (f2 c) (top_n E max vis pol [] c)
+  fold_left (f2 c) (top_n E max vis pol fl c)
     (fold_left (f1 c)
-       (filter (fun i => negb (memN i (map fst (top_n E max vis pol [] c)))) (em_ids (c_id c) (fst st)))
+       (filter (fun i => negb (memN i (map fst (top_n E max vis pol fl c)))) (em_ids (c_id c) (fst st)))
        st).
 Proof. reflexivity. Qed.
 
@@ -547,25 +619,35 @@ Record step_hyp (c : change) (old : list path) : Prop := {
   sh_nd : NoDup (map p_pid (c_paths c));
   sh_ndo : NoDup (map p_pid old);
   sh_same : forall p q, In p (c_paths c) -> In q old -> p_pid p = p_pid q ->
-                        p = q \/ c_repl c = Some (p_pid p)
+                        p = q \/ c_repl c = Some (p_pid p);
+  sh_mark : forall q, In q (c_paths c) -> p_mark q = true -> lv q = true
 }.
 
-Definition post_ok (c : change) (em : emap) (p : ptx E) (base : key -> option E)
-           (em' : emap) (p' : ptx E) : Prop :=
-  (forall k, In k em' <->
-             (fst k = c_id c /\ In (snd k) (map fst (SEL (c_net c) (c_paths c)))) \/
-             (fst k <> c_id c /\ In k em)) /\
-  (forall k, T p' base k = if fst k =? c_net c then assoc (snd k) (SEL (c_net c) (c_paths c))
-                           else T p base k) /\
-  (coherent E p -> coherent E p').
+(* the marker a route was last sent with lies between the ghost marker of its path and
+   the live flag of its source *)
+Definition bnd (m : path -> bool) (l : list path) : Prop :=
+  forall q, In q l -> (p_mark q = true -> m q = true) /\ (m q = true -> lv q = true).
 
-Lemma unchanged_ok : forall c old (em : emap) p base,
-  SEL (c_net c) (c_paths c) = SEL (c_net c) old ->
-  (forall w, In (c_id c, w) em <-> In w (map fst (SEL (c_net c) old))) ->
-  (forall w, T p base (c_net c, w) = assoc w (SEL (c_net c) old)) ->
-  post_ok c em p base em p.
+Lemma bnd_lv : forall c old, step_hyp c old -> bnd lv (c_paths c).
+Proof. intros c old Hh q Hq. split; auto. apply (sh_mark _ _ Hh); auto. Qed.
+
+Definition post_ok (c : change) (em : emap) (p : ptx E) (base : key -> option E)
+           (em' : emap) (p' : ptx E) (m' : path -> bool) : Prop :=
+  (forall k, In k em' <->
+             (fst k = c_id c /\ In (snd k) (map fst (SEL m' (c_net c) (c_paths c)))) \/
+             (fst k <> c_id c /\ In k em)) /\
+  (forall k, T p' base k = if fst k =? c_net c then assoc (snd k) (SEL m' (c_net c) (c_paths c))
+                           else T p base k) /\
+  (coherent E p -> coherent E p') /\
+  bnd m' (c_paths c).
+
+Lemma unchanged_ok : forall c old (em : emap) p base m m',
+  SEL m' (c_net c) (c_paths c) = SEL m (c_net c) old -> bnd m' (c_paths c) ->
+  (forall w, In (c_id c, w) em <-> In w (map fst (SEL m (c_net c) old))) ->
+  (forall w, T p base (c_net c, w) = assoc w (SEL m (c_net c) old)) ->
+  post_ok c em p base em p m'.
 Proof.
-  intros c old em p base Hs HA HB. rewrite <- Hs in HA, HB. split; [|split]; auto.
+  intros c old em p base m m' Hs Hb HA HB. rewrite <- Hs in HA, HB. split; [|split; [|split]]; auto.
   - intros [a b]; cbn [fst snd]. destruct (N.eq_dec a (c_id c)) as [->|Hne].
     + rewrite HA. tauto.
     + tauto.
@@ -573,26 +655,20 @@ Proof.
     apply N.eqb_eq in Ha; subst. apply HB.
 Qed.
 
-Lemma sel_plain : max = 1 -> forall net paths,
-  SEL net paths = match paths with
-                  | [] => []
-                  | b :: _ => if vis b then match pol false net b with Some e => [(0, e)] | None => [] end
-                              else []
-                  end.
-Proof. intros Hm net paths. unfold sel. subst max. reflexivity. Qed.
+Lemma sel_plain : max = 1 -> forall m net paths,
+  SEL m net paths = match paths with
+                    | [] => []
+                    | b :: _ => if vis b then match pol (m b) net b with Some e => [(0, e)] | None => [] end
+                                else []
+                    end.
+Proof. intros Hm m net paths. unfold sel. rewrite Hm. reflexivity. Qed.
 
-Lemma sel_plain_hd : max = 1 -> forall net a b, hd_error a = hd_error b -> SEL net a = SEL net b.
+Lemma sel_plain_pid0 : max = 1 -> forall m net paths w, In w (map fst (SEL m net paths)) -> w = 0.
 Proof.
-  intros Hm net a b H. rewrite !sel_plain by auto.
-  destruct a, b; cbn [hd_error] in H; try discriminate; auto. inversion H; subst; reflexivity.
-Qed.
-
-Lemma sel_plain_pid0 : max = 1 -> forall net paths w, In w (map fst (SEL net paths)) -> w = 0.
-Proof.
-  intros Hm net paths w. rewrite sel_plain by auto.
+  intros Hm m net paths w. rewrite sel_plain by auto.
   destruct paths as [|b t]; cbn [map In]; [tauto|].
   destruct (vis b); cbn [map In]; [|tauto].
-  destruct (pol false net b); cbn [map fst In]; [|tauto]. intros [H|[]]; auto.
+  destruct (pol (m b) net b); cbn [map fst In]; [|tauto]. intros [H|[]]; auto.
 Qed.
 
 Lemma T_reach : forall p base k' net e k,
@@ -603,32 +679,71 @@ Lemma T_unreach : forall p base k' net k,
   T (ptx_unreach E k' net p) base k = if key_eqb k k' then None else T p base k.
 Proof. intros. unfold T. rewrite pview_unreach. destruct (key_eqb k k'); auto. Qed.
 
-Lemma proc_plain_ok : max = 1 -> forall c old (em : emap) p base,
-  step_hyp c old ->
-  (forall w, In (c_id c, w) em <-> In w (map fst (SEL (c_net c) old))) ->
-  (forall w, T p base (c_net c, w) = assoc w (SEL (c_net c) old)) ->
-  exists p', snd (PC c (em, SPtx E p)) = SPtx E p' /\
-             post_ok c em p base (fst (PC c (em, SPtx E p))) p'.
+Definition path_eqb (a b : path) : bool :=
+  (p_pid a =? p_pid b) && (p_src a =? p_src b) && (p_tok a =? p_tok b) && Bool.eqb (p_mark a) (p_mark b).
+
+Lemma path_eqb_eq : forall a b, path_eqb a b = true <-> a = b.
 Proof.
-  intros Hm c old em p base Hh HA HB.
+  intros [a1 a2 a3 a4] [b1 b2 b3 b4]. unfold path_eqb; cbn [p_pid p_src p_tok p_mark].
+  rewrite !andb_true_iff, !N.eqb_eq, Bool.eqb_true_iff. split.
+  - intros [[[-> ->] ->] ->]; reflexivity.
+  - intros H; inversion H; auto.
+Qed.
+
+Definition inb (q : path) (l : list path) : bool := existsb (path_eqb q) l.
+
+Lemma inb_In : forall q l, inb q l = true <-> In q l.
+Proof.
+  intros q l. unfold inb. rewrite existsb_exists. split.
+  - intros [x [Hx He]]. apply path_eqb_eq in He; now subst.
+  - intros H. exists q; split; auto. apply path_eqb_eq; reflexivity.
+Qed.
+
+(* keep the old marker on paths that were there before, the live flag on new ones *)
+Definition keep (m : path -> bool) (old : list path) : path -> bool :=
+  fun q => if inb q old then m q else lv q.
+
+Lemma bnd_keep : forall m c old, step_hyp c old -> bnd m old -> bnd (keep m old) (c_paths c).
+Proof.
+  intros m c old Hh Hb q Hq. unfold keep. destruct (inb q old) eqn:Hi.
+  - apply inb_In in Hi. apply Hb; auto.
+  - split; auto. apply (sh_mark _ _ Hh); auto.
+Qed.
+
+Lemma proc_plain_ok : max = 1 -> forall c old (em : emap) p base m,
+  step_hyp c old -> bnd m old ->
+  (forall w, In (c_id c, w) em <-> In w (map fst (SEL m (c_net c) old))) ->
+  (forall w, T p base (c_net c, w) = assoc w (SEL m (c_net c) old)) ->
+  exists p' m', snd (PC c (em, SPtx E p)) = SPtx E p' /\
+                post_ok c em p base (fst (PC c (em, SPtx E p))) p' m'.
+Proof.
+  intros Hm c old em p base m Hh Hbm HA HB.
   assert (Hpid0 : forall w, In (c_id c, w) em -> w = 0).
   { intros w Hw. apply HA in Hw. eapply sel_plain_pid0; eauto. }
   assert (HT0 : forall w, w <> 0 -> T p base (c_net c, w) = None).
   { intros w Hw. rewrite HB. apply assoc_None. intros Hin. apply Hw. eapply sel_plain_pid0; eauto. }
-  unfold process_change, ap. rewrite Hm. cbn [N.eqb Pos.eqb negb]. unfold proc_plain.
+  assert (Hmt : (max =? 1) = true) by (rewrite Hm; reflexivity).
+  unfold process_change, ap. rewrite Hmt. cbn [negb]. unfold proc_plain.
   destruct (c_bc c) eqn:Hbc; cbn [negb].
-  2:{ exists p. split; [reflexivity|]. cbn [fst]. apply (unchanged_ok c old em p base); auto.
-      apply sel_plain_hd; auto. apply (sh_bc _ _ Hh); auto. }
+  2:{ exists p, (keep m old). split; [reflexivity|]. cbn [fst].
+      apply (unchanged_ok c old em p base m (keep m old)); auto.
+      - pose proof (sh_bc _ _ Hh Hbc) as Hhd. rewrite !sel_plain by auto.
+        destruct (c_paths c) as [|a ta], old as [|b tb]; cbn [hd_error] in Hhd; try discriminate; auto.
+        inversion Hhd; subst b. unfold keep.
+        assert (Hi : inb a (a :: tb) = true) by (apply inb_In; left; auto). rewrite Hi. reflexivity.
+      - apply bnd_keep; auto. }
   set (res := match c_paths c with
               | [] => None
-              | b :: _ => if vis b then pol (llgr_of [] b) (c_net c) b else None
+              | b :: _ => if vis b then pol (llgr_of fl b) (c_net c) b else None
               end).
-  assert (Hsel : SEL (c_net c) (c_paths c) = match res with Some e => [(0, e)] | None => [] end).
+  assert (Hsel : SEL lv (c_net c) (c_paths c) = match res with Some e => [(0, e)] | None => [] end).
   { rewrite sel_plain by auto. unfold res. destruct (c_paths c) as [|b t]; auto.
     destruct (vis b); auto. }
+  pose proof (bnd_lv c old Hh) as Hbl.
   destruct res as [e|] eqn:Hres.
-  - rewrite (sink_reach_plain Hm). eexists; split; [reflexivity|]. cbn [fst].
-    unfold post_ok. rewrite Hsel. split; [|split].
+  - rewrite (sink_reach_plain Hm). exists (ptx_reach E (c_net c, 0) (c_net c) e p), lv.
+    split; [reflexivity|]. cbn [fst].
+    unfold post_ok. rewrite Hsel. split; [|split; [|split]]; auto.
     + intros [a b]; cbn [fst snd map In]. rewrite In_em_add.
       destruct (N.eq_dec a (c_id c)) as [->|Hne].
       * split.
@@ -643,8 +758,9 @@ Proof.
       destruct (b =? 0) eqn:Hb; auto. apply N.eqb_neq in Hb. apply HT0; auto.
     + intros Hc. apply (coherent_reach E p (c_net c, 0)); auto.
   - destruct (em_was_sent (c_id c) em) eqn:Hws.
-    + rewrite (sink_unreach_plain Hm). eexists; split; [reflexivity|]. cbn [fst].
-      unfold post_ok. rewrite Hsel. split; [|split].
+    + rewrite (sink_unreach_plain Hm). exists (ptx_unreach E (c_net c, 0) (c_net c) p), lv.
+      split; [reflexivity|]. cbn [fst].
+      unfold post_ok. rewrite Hsel. split; [|split; [|split]]; auto.
       * intros [a b]; cbn [fst snd map In]. rewrite In_em_del.
         destruct (N.eq_dec a (c_id c)) as [->|Hne].
         -- split; [|tauto]. intros [H1 H2]. exfalso. apply H2. rewrite (Hpid0 _ H1). reflexivity.
@@ -655,11 +771,11 @@ Proof.
         apply N.eqb_eq in Ha; subst a.
         destruct (b =? 0) eqn:Hb; auto. apply N.eqb_neq in Hb. apply HT0; auto.
       * intros Hc. apply (coherent_unreach E p (c_net c, 0)); auto.
-    + exists p. split; [reflexivity|]. cbn [fst].
+    + exists p, lv. split; [reflexivity|]. cbn [fst].
       assert (Hno : forall w, ~ In (c_id c, w) em).
       { intros w Hw. assert (em_was_sent (c_id c) em = true) by (apply em_was_sent_spec; eauto).
         congruence. }
-      unfold post_ok. rewrite Hsel. split; [|split]; auto.
+      unfold post_ok. rewrite Hsel. split; [|split; [|split]]; auto.
       * intros [a b]; cbn [fst snd map In].
         destruct (N.eq_dec a (c_id c)) as [->|Hne]; [|tauto].
         split; [intros H; exfalso; eapply Hno; eauto | tauto].
@@ -668,21 +784,21 @@ Proof.
         rewrite HB. apply assoc_None. intros Hin. apply HA in Hin. eapply Hno; eauto.
 Qed.
 
-
-Lemma proc_ap_ok : max <> 1 -> forall c old (em : emap) p base,
-  step_hyp c old ->
-  (forall w, In (c_id c, w) em <-> In w (map fst (SEL (c_net c) old))) ->
-  (forall w, T p base (c_net c, w) = assoc w (SEL (c_net c) old)) ->
-  exists p', snd (PC c (em, SPtx E p)) = SPtx E p' /\
-             post_ok c em p base (fst (PC c (em, SPtx E p))) p'.
+Lemma proc_ap_ok : max <> 1 -> forall c old (em : emap) p base m,
+  step_hyp c old -> bnd m old ->
+  (forall w, In (c_id c, w) em <-> In w (map fst (SEL m (c_net c) old))) ->
+  (forall w, T p base (c_net c, w) = assoc w (SEL m (c_net c) old)) ->
+  exists p' m', snd (PC c (em, SPtx E p)) = SPtx E p' /\
+                post_ok c em p base (fst (PC c (em, SPtx E p))) p' m'.
 Proof.
-  intros Hm c old em p base Hh HA HB.
+  intros Hm c old em p base m Hh Hbm HA HB.
   unfold process_change, ap. apply N.eqb_neq in Hm as Hmb. rewrite Hmb. cbn [negb].
   rewrite proc_ap_eq. destruct (c_ac c) eqn:Hac; cbn [negb].
-  2:{ exists p. split; [reflexivity|]. cbn [fst]. apply (unchanged_ok c old em p base); auto.
-      rewrite (sh_ac _ _ Hh); auto. }
+  2:{ exists p, m. split; [reflexivity|]. cbn [fst]. apply (unchanged_ok c old em p base m m); auto.
+      - rewrite (sh_ac _ _ Hh); auto.
+      - rewrite (sh_ac _ _ Hh); auto. }
   rewrite (top_n_sel Hm). cbn [fst snd].
-  set (top := SEL (c_net c) (c_paths c)).
+  set (top := SEL lv (c_net c) (c_paths c)).
   set (cur := map fst top).
   set (gone := filter (fun i => negb (memN i cur)) (em_ids (c_id c) em)).
   assert (Hndt : NoDup (map fst top)) by (apply sel_nodup; auto; apply (sh_nd _ _ Hh)).
@@ -692,11 +808,23 @@ Proof.
   clear Hst1def. destruct st1 as [em1 sk1]. cbn [fst snd] in Hs1, He1. subst sk1.
   destruct (phase2 Hm c top em1 p1 Hndt) as [p2 [Hs2 [He2 [Hp2 Hc2]]]].
   cbv zeta in Hs2, He2.
-  exists p2. split; [exact Hs2|].
+  (* the marker function after this change: live for what is (re)sent now *)
+  set (resent := fun w => negb (memK (c_id c, w) em1) || opt_eqb (c_repl c) w).
+  set (m' := fun q => if resent (p_pid q) then lv q else m q).
+  exists p2, m'. split; [exact Hs2|].
   assert (Hgone : forall w, In w gone <-> In (c_id c, w) em /\ ~ In w cur).
   { intros w. unfold gone. rewrite filter_In, In_em_ids, negb_true_iff, memN_false. tauto. }
-  unfold post_ok. fold top. split; [|split].
-  - intros [a b]. rewrite He2, He1. cbn [fst snd]. fold cur.
+  (* a path that is not re-sent was in the old list, unchanged *)
+  assert (Hkept : forall q, In q (c_paths c) -> resent (p_pid q) = false -> In q old).
+  { intros q Hq Hr. unfold resent in Hr. apply orb_false_iff in Hr as [Hin Hrep].
+    apply negb_false_iff in Hin. apply memK_In in Hin. apply He1 in Hin as [Hin _].
+    apply HA in Hin. apply in_map_iff in Hin as [[w e'] [Hw Hin']]. cbn [fst] in Hw; subst w.
+    destruct (sel_In_ap Hm _ _ _ _ _ Hin') as [q' [_ [Hq' [Hqp' _]]]].
+    destruct (sh_same _ _ Hh q q' Hq Hq') as [Heq|Hr]; [congruence | subst; auto |].
+    rewrite Hr in Hrep. cbn [opt_eqb] in Hrep. rewrite N.eqb_refl in Hrep. discriminate. }
+  assert (Hpids : map fst (SEL m' (c_net c) (c_paths c)) = cur) by (apply sel_pids).
+  unfold post_ok. split; [|split; [|split]].
+  - intros [a b]. rewrite He2, He1, Hpids. cbn [fst snd]. fold cur.
     destruct (N.eq_dec a (c_id c)) as [->|Hne].
     + split.
       * intros [[H1 H2]|[_ H]]; auto. left; split; auto.
@@ -713,40 +841,54 @@ Proof.
     assert (Hp1b : pview E p1 (c_net c, b) = if memN b gone then Some None else pview E p (c_net c, b)).
     { rewrite Hp1. cbn [fst snd]. now rewrite N.eqb_refl. }
     destruct (assoc b top) as [e|] eqn:Hab.
-    + destruct (negb (memK (c_id c, b) em1) || opt_eqb (c_repl c) b) eqn:Hcond; auto.
-      apply orb_false_iff in Hcond as [Hin Hrep]. apply negb_false_iff in Hin.
-      apply memK_In in Hin. apply He1 in Hin as [Hin Hng]. cbn [fst snd] in Hng.
-      rewrite Hp1b.
-      assert (Hnb : memN b gone = false).
-      { apply memN_false. intros Hg. apply Hng; auto. }
-      rewrite Hnb. fold (T p base (c_net c, b)). rewrite HB.
-      (* the path keeps its id and was not replaced: same content, same payload *)
-      symmetry. apply assoc_In in Hab. unfold top in Hab.
-      destruct (sel_In_ap Hm _ _ _ _ Hab) as [q [Hq [Hqp Hqe]]].
-      apply HA in Hin. apply in_map_iff in Hin as [[w e'] [Hw Hin']]. cbn [fst] in Hw; subst w.
-      destruct (sel_In_ap Hm _ _ _ _ Hin') as [q' [Hq' [Hqp' Hqe']]].
-      destruct (sh_same _ _ Hh q q' Hq Hq') as [Heq|Hr]; [congruence | |].
-      * subst q'. symmetry. apply In_assoc_nodup.
-        -- apply sel_nodup; auto. apply (sh_ndo _ _ Hh).
-        -- rewrite Hqe in Hqe'. inversion Hqe'; subst. exact Hin'.
-      * rewrite Hr, Hqp in Hrep. cbn [opt_eqb] in Hrep. rewrite N.eqb_refl in Hrep. discriminate.
-    + rewrite Hp1b. destruct (memN b gone) eqn:Hg; auto.
+    + apply assoc_In in Hab as Habi. unfold top in Habi.
+      destruct (sel_In_ap Hm _ _ _ _ _ Habi) as [q [Hqw [Hq [Hqp Hqe]]]]. subst b.
+      fold (resent (p_pid q)).
+      destruct (resent (p_pid q)) eqn:Hcond.
+      * symmetry. apply sel_assoc_window; auto; [apply (sh_nd _ _ Hh)|].
+        unfold m'. rewrite Hcond. exact Hqe.
+      * pose proof (Hkept q Hq Hcond) as Hqo.
+        unfold resent in Hcond. apply orb_false_iff in Hcond as [Hin Hrep].
+        apply negb_false_iff in Hin. apply memK_In in Hin. apply He1 in Hin as [Hin Hng].
+        cbn [fst snd] in Hng. rewrite Hp1b.
+        assert (Hnb : memN (p_pid q) gone = false).
+        { apply memN_false. intros Hg. apply Hng; auto. }
+        rewrite Hnb. fold (T p base (c_net c, p_pid q)). rewrite HB.
+        (* same record in the old list: same marker, same payload *)
+        pose proof Hin as Hin0. apply HA in Hin. apply in_map_iff in Hin as [[w e'] [Hw Hin']]. cbn [fst] in Hw; subst w.
+        destruct (sel_In_ap Hm _ _ _ _ _ Hin') as [q' [Hqw' [Hq' [Hqp' Hqe']]]].
+        destruct (sh_same _ _ Hh q q' Hq Hq') as [Heq|Hr]; [congruence | |].
+        -- subst q'.
+           rewrite (In_assoc_nodup _ _ _ (sel_nodup Hm m _ _ (sh_ndo _ _ Hh)) Hin').
+           symmetry. apply sel_assoc_window; auto; [apply (sh_nd _ _ Hh)|].
+           unfold m'. fold (resent (p_pid q)).
+           assert (Hrs : resent (p_pid q) = false).
+           { unfold resent. apply orb_false_iff. split; [|exact Hrep]. apply negb_false_iff.
+             apply memK_In. apply He1. split; [exact Hin0 | exact Hng]. }
+           rewrite Hrs. exact Hqe'.
+        -- rewrite Hr in Hrep. cbn [opt_eqb] in Hrep. rewrite N.eqb_refl in Hrep. discriminate.
+    + assert (Hnone : assoc b (SEL m' (c_net c) (c_paths c)) = None).
+      { apply assoc_None. rewrite Hpids. apply assoc_None in Hab. exact Hab. }
+      rewrite Hnone. rewrite Hp1b. destruct (memN b gone) eqn:Hg; auto.
       fold (T p base (c_net c, b)). rewrite HB.
       apply assoc_None. intros Hin. apply HA in Hin.
       apply memN_false in Hg. apply Hg. apply Hgone. split; auto.
       apply assoc_None in Hab. exact Hab.
   - intros Hc. apply Hc2. apply Hc1. exact Hc.
+  - intros q Hq. unfold m'. destruct (resent (p_pid q)) eqn:Hr.
+    + apply (bnd_lv c old Hh); auto.
+    + apply Hbm. apply Hkept; auto.
 Qed.
 
-Lemma proc_ok : forall c old (em : emap) p base,
-  step_hyp c old ->
-  (forall w, In (c_id c, w) em <-> In w (map fst (SEL (c_net c) old))) ->
-  (forall w, T p base (c_net c, w) = assoc w (SEL (c_net c) old)) ->
-  exists p', snd (PC c (em, SPtx E p)) = SPtx E p' /\
-             post_ok c em p base (fst (PC c (em, SPtx E p))) p'.
+Lemma proc_ok : forall c old (em : emap) p base m,
+  step_hyp c old -> bnd m old ->
+  (forall w, In (c_id c, w) em <-> In w (map fst (SEL m (c_net c) old))) ->
+  (forall w, T p base (c_net c, w) = assoc w (SEL m (c_net c) old)) ->
+  exists p' m', snd (PC c (em, SPtx E p)) = SPtx E p' /\
+                post_ok c em p base (fst (PC c (em, SPtx E p))) p' m'.
 Proof.
-  intros c old em p base Hh HA HB.
-  destruct (N.eq_dec max 1); [apply (proc_plain_ok e c old) | apply (proc_ap_ok n c old)]; auto.
+  intros c old em p base m Hh Hb HA HB.
+  destruct (N.eq_dec max 1); [apply (proc_plain_ok e c old em p base m) | apply (proc_ap_ok n c old em p base m)]; auto.
 Qed.
 
 End Export.
@@ -933,59 +1075,88 @@ Variable E : Type.
 Variable max : N.
 Variable vis : path -> bool.
 Variable pol : bool -> N -> path -> option E.
+Hypothesis pol_acc : pol_marks_after_accept E pol.
 
 Let aptx := negb (max =? 1).
 Notation SEL := (sel E max vis pol).
 Notation FRESH := (fresh_at E max vis pol).
-Notation PC := (process_change E ByNet max aptx vis pol []).
+Notation PC := (process_change E ByNet max aptx vis pol).
 Notation TT := (T E).
 
+Definition m0 : path -> bool := fun _ => false.
+
 Definition contrib (d : dest) (k : key) : Prop :=
-  d_id d = fst k /\ In (snd k) (map fst (SEL (d_net d) (d_paths d))).
+  d_id d = fst k /\ In (snd k) (map fst (SEL m0 (d_net d) (d_paths d))).
 
 Definition emap_ok (L : rib) (em : emap) : Prop :=
   forall k, In k em <-> exists d, In d L /\ contrib d k.
 
-Definition pend_ok (L : rib) (p : ptx E) (base : key -> option E) : Prop :=
-  forall k, TT p base k = FRESH L k.
+(* per prefix and path: the marker the route was last sent with *)
+Definition bnd_rib (fl : list N) (L : rib) (m : N -> path -> bool) : Prop :=
+  forall d, In d L -> bnd fl (m (d_net d)) (d_paths d).
+
+Definition pend_ok (fl : list N) (L : rib) (p : ptx E) (base : key -> option E) : Prop :=
+  exists m, bnd_rib fl L m /\ forall k, TT p base k = FRESH m L k.
 
 Definition mkc (net i : N) (bc ac : bool) (repl : option N) (paths : list path) : change :=
   {| c_net := net; c_id := i; c_bc := bc; c_ac := ac; c_repl := repl; c_paths := paths |}.
 
 (* a RIB operation that emits a change / that emits none *)
-Inductive emit : rib -> change -> rib -> Prop :=
+Inductive emit (fl : list N) : rib -> change -> rib -> Prop :=
 | emit_set : forall L net bc ac repl paths,
-    truthful L (RibSet net bc ac repl paths) ->
-    emit L (mkc net (snd (rset net paths L)) bc ac repl paths) (fst (rset net paths L))
+    truthful_set fl L (net, bc, ac, repl, paths) ->
+    emit fl L (mkc net (snd (rset net paths L)) bc ac repl paths) (fst (rset net paths L))
 | emit_free : forall L net d,
     rfind net L = Some d ->
-    emit L (mkc net (d_id d) true true None []) (rfree net L).
+    emit fl L (mkc net (d_id d) true true None []) (rfree net L).
 
 Inductive silent : rib -> rib -> Prop :=
 | silent_touch : forall L net, rfind net L = None -> silent L (fst (rset net [] L))
 | silent_free : forall L net, old_paths net L = [] -> silent L (rfree net L).
 
-Lemma fresh_old : forall L net w, FRESH L (net, w) = assoc w (SEL net (old_paths net L)).
+Lemma memN_sub : forall (fl fl' : list N) x, (forall y, In y fl -> In y fl') ->
+  memN x fl = true -> memN x fl' = true.
+Proof. intros fl fl' x H Hm. apply memN_In. apply H. apply memN_In. exact Hm. Qed.
+
+Lemma emit_mono : forall fl fl' L c L', (forall y, In y fl -> In y fl') ->
+  emit fl L c L' -> emit fl' L c L'.
+Proof.
+  intros fl fl' L c L' Hsub He. destruct He as [L net bc ac repl paths Ht | L net d Hf].
+  - apply emit_set. destruct Ht as [H1 [H2 [H3 [H4 H5]]]]. repeat split; auto.
+    intros q Hq Hmk. eapply memN_sub; eauto.
+  - apply emit_free; auto.
+Qed.
+
+Lemma bnd_mono : forall fl fl' m l, (forall y, In y fl -> In y fl') -> bnd fl m l -> bnd fl' m l.
+Proof.
+  intros fl fl' m l Hsub Hb q Hq. destruct (Hb q Hq) as [H1 H2]. split; auto.
+  intros Hm. unfold lv, llgr_of in *. eapply memN_sub; eauto.
+Qed.
+
+Lemma fresh_old : forall m L net w, FRESH m L (net, w) = assoc w (SEL (m net) net (old_paths net L)).
 Proof.
   intros. unfold fresh_at, old_paths. cbn [fst snd]. destruct (rfind net L); auto.
   rewrite sel_nil. reflexivity.
 Qed.
 
-Record emit_ok (L : rib) (c : change) (L' : rib) : Prop := {
+Record emit_ok (fl : list N) (L : rib) (c : change) (L' : rib) : Prop := {
   eo_wf : wf L';
-  eo_hyp : step_hyp c (old_paths (c_net c) L);
+  eo_hyp : step_hyp fl c (old_paths (c_net c) L);
   eo_old : forall w, (exists d, In d L /\ contrib d (c_id c, w)) <->
-                     In w (map fst (SEL (c_net c) (old_paths (c_net c) L)));
-  eo_fresh : forall k, FRESH L' k = if fst k =? c_net c
-                                    then assoc (snd k) (SEL (c_net c) (c_paths c))
-                                    else FRESH L k;
+                     In w (map fst (SEL m0 (c_net c) (old_paths (c_net c) L)));
+  eo_fresh : forall m k, FRESH m L' k = if fst k =? c_net c
+                                        then assoc (snd k) (SEL (m (c_net c)) (c_net c) (c_paths c))
+                                        else FRESH m L k;
   eo_contrib : forall k, (exists d, In d L' /\ contrib d k) <->
-                         (fst k = c_id c /\ In (snd k) (map fst (SEL (c_net c) (c_paths c)))) \/
-                         (fst k <> c_id c /\ exists d, In d L /\ contrib d k)
+                         (fst k = c_id c /\ In (snd k) (map fst (SEL m0 (c_net c) (c_paths c)))) \/
+                         (fst k <> c_id c /\ exists d, In d L /\ contrib d k);
+  eo_paths : forall d, In d L' -> (d_net d = c_net c /\ d_paths d = c_paths c) \/
+                                  (d_net d <> c_net c /\ In d L);
+  eo_oldin : forall d, In d L -> d_net d = c_net c -> d_paths d = old_paths (c_net c) L
 }.
 
 Lemma old_of_found : forall L net d0 w, wf L -> rfind net L = Some d0 ->
-  ((exists d, In d L /\ contrib d (d_id d0, w)) <-> In w (map fst (SEL net (old_paths net L)))).
+  ((exists d, In d L /\ contrib d (d_id d0, w)) <-> In w (map fst (SEL m0 net (old_paths net L)))).
 Proof.
   intros L net d0 w [H1 [H2 H3]] Hf. unfold old_paths. rewrite Hf.
   destruct (rfind_Some _ _ _ Hf) as [Hin Hnet]. split.
@@ -1003,10 +1174,15 @@ Proof.
   - intros Hne He. apply Hne. assert (d = d0) by (eapply In_same_id; eauto). now subst.
 Qed.
 
-Lemma emit_emit_ok : forall L c L', wf L -> emit L c L' -> emit_ok L c L'.
+Lemma oldin : forall L net d, wf L -> In d L -> d_net d = net -> d_paths d = old_paths net L.
 Proof.
-  intros L c L' Hwf Hem. pose proof Hwf as [Hw1 [Hw2 Hw3]].
-  destruct Hem as [L net bc ac repl paths [Hac [Hbc [Hnd Hsame]]] | L net d0 Hf].
+  intros L net d [H1 _] Hd Hn. unfold old_paths. rewrite <- Hn. now rewrite (rfind_In L d H1 Hd).
+Qed.
+
+Lemma emit_emit_ok : forall fl L c L', wf L -> emit fl L c L' -> emit_ok fl L c L'.
+Proof.
+  intros fl L c L' Hwf Hem. pose proof Hwf as [Hw1 [Hw2 Hw3]].
+  destruct Hem as [L net bc ac repl paths [Hac [Hbc [Hnd [Hsame Hmk]]]] | L net d0 Hf].
   - (* RibSet *)
     unfold mkc. unfold rset. destruct (rfind net L) as [d0|] eqn:Hf; cbn [fst snd].
     + destruct (rfind_Some _ _ _ Hf) as [Hin0 Hnet0].
@@ -1015,7 +1191,7 @@ Proof.
       * constructor; cbn [c_net c_id c_paths c_ac c_bc c_repl]; auto.
         unfold old_paths; rewrite Hf. auto.
       * intros w. apply old_of_found; auto.
-      * intros [a b]. unfold fresh_at at 1. cbn [fst snd]. rewrite rfind_rupdate, Hf.
+      * intros m [a b]. unfold fresh_at at 1. cbn [fst snd]. rewrite rfind_rupdate, Hf.
         destruct (a =? net) eqn:Ha; auto. apply N.eqb_eq in Ha; subst a. reflexivity.
       * intros k. split.
         -- intros [d [Hd Hc]]. apply (In_rupdate_iff net paths L d0 d Hw1 Hf) in Hd as [[Hd Hne]|Hd].
@@ -1029,6 +1205,9 @@ Proof.
            ++ exists d. split; [|split; auto].
               apply (In_rupdate_iff net paths L d0 d Hw1 Hf). left. split; auto.
               apply (other_net L net d0 d); auto. congruence.
+      * intros d Hd. apply (In_rupdate_iff net paths L d0 d Hw1 Hf) in Hd as [[Hd Hne]|Hd]; auto.
+        subst d. left; auto.
+      * intros d Hd Hn. apply oldin; auto.
     + assert (Hfr : ~ In (alloc (rused L)) (map d_id L)) by apply alloc_fresh.
       set (dn := {| d_net := net; d_id := alloc (rused L); d_paths := paths |}).
       constructor; cbn [c_net c_id c_paths c_ac c_bc c_repl].
@@ -1037,7 +1216,7 @@ Proof.
         unfold old_paths; rewrite Hf. constructor.
       * intros w. unfold old_paths; rewrite Hf, sel_nil. cbn [map In]. split; [|tauto].
         intros [d [Hd [Hi _]]]. cbn [fst] in Hi. apply Hfr. rewrite <- Hi. apply in_map; auto.
-      * intros [a b]. unfold fresh_at. cbn [fst snd]. rewrite rfind_app. cbn [rfind d_net].
+      * intros m [a b]. unfold fresh_at. cbn [fst snd]. rewrite rfind_app. cbn [rfind d_net].
         destruct (a =? net) eqn:Ha.
         -- apply N.eqb_eq in Ha; subst a. unfold dn; cbn [d_net]. rewrite Hf, N.eqb_refl. reflexivity.
         -- unfold dn; cbn [d_net]. rewrite (N.eqb_sym net a), Ha. destruct (rfind a L); auto.
@@ -1050,6 +1229,10 @@ Proof.
            ++ exists dn. split; [apply in_or_app; right; left; auto|].
               split; cbn [d_id d_net d_paths]; auto.
            ++ exists d. split; auto. apply in_or_app; auto.
+      * intros d Hd. apply in_app_or in Hd as [Hd|[Hd|[]]].
+        -- right. split; auto. intros He. apply (rfind_None _ _ Hf). rewrite <- He. apply in_map; auto.
+        -- subst d. left; auto.
+      * intros d Hd Hn. apply oldin; auto.
   - (* RibFree, emitted *)
     destruct (rfind_Some _ _ _ Hf) as [Hin0 Hnet0]. unfold mkc.
     constructor; cbn [c_net c_id c_paths c_ac c_bc c_repl].
@@ -1058,37 +1241,65 @@ Proof.
       * constructor.
       * unfold old_paths; rewrite Hf. auto.
       * intros p0 q0 [].
+      * intros q0 [].
     + intros w. apply old_of_found; auto.
-    + intros [a b]. unfold fresh_at at 1. cbn [fst snd]. rewrite rfind_rfree.
+    + intros m [a b]. unfold fresh_at at 1. cbn [fst snd]. rewrite rfind_rfree.
       destruct (a =? net) eqn:Ha; auto. rewrite sel_nil. reflexivity.
     + intros k. rewrite sel_nil. cbn [map In]. split.
       * intros [d [Hd Hc]]. apply In_rfree in Hd as [Hd Hne]. right. split; [|eauto].
         destruct Hc as [Hi _]. rewrite <- Hi. apply (other_net L net d0 d); auto.
       * intros [[_ []]|[Hne [d [Hd [Hi Hc]]]]]. exists d. split; [|split; auto].
         apply In_rfree. split; auto. apply (other_net L net d0 d); auto. congruence.
+    + intros d Hd. apply In_rfree in Hd as [Hd Hne]. right; auto.
+    + intros d Hd Hn. apply oldin; auto.
 Qed.
 
 (* Deliver: processing the change of an emitting RIB operation moves the neighbour-side
    invariants from the RIB before the operation to the RIB after it *)
-Lemma deliver_ok : forall L c L' em p base,
-  wf L -> emit L c L' -> emap_ok L em -> pend_ok L p base -> coherent E p ->
-  exists p', snd (PC c (em, SPtx E p)) = SPtx E p' /\
-             wf L' /\ emap_ok L' (fst (PC c (em, SPtx E p))) /\ pend_ok L' p' base /\ coherent E p'.
+Lemma deliver_ok : forall fl L c L' em p base,
+  wf L -> emit fl L c L' -> emap_ok L em -> pend_ok fl L p base -> coherent E p ->
+  exists p', snd (PC fl c (em, SPtx E p)) = SPtx E p' /\
+             wf L' /\ emap_ok L' (fst (PC fl c (em, SPtx E p))) /\ pend_ok fl L' p' base /\
+             coherent E p'.
 Proof.
-  intros L c L' em p base Hwf Hem Hemap Hpend Hcoh. unfold aptx.
-  destruct (emit_emit_ok L c L' Hwf Hem) as [Hwf' Hh Hold Hfresh Hcontrib].
-  destruct (proc_ok E max vis pol c (old_paths (c_net c) L) em p base Hh) as [p' [Hs [Hpe [Hpt Hpc]]]].
-  - intros w. rewrite (Hemap (c_id c, w)). apply Hold.
+  intros fl L c L' em p base Hwf Hem Hemap [m [Hbm Hpend]] Hcoh. unfold aptx.
+  destruct (emit_emit_ok fl L c L' Hwf Hem) as [Hwf' Hh Hold Hfresh Hcontrib Hpaths Holdin].
+  assert (Hbo : bnd fl (m (c_net c)) (old_paths (c_net c) L)).
+  { unfold old_paths. destruct (rfind (c_net c) L) as [d|] eqn:Hf; [|intros q []].
+    destruct (rfind_Some _ _ _ Hf) as [Hd Hn]. rewrite <- Hn. apply Hbm; auto. }
+  destruct (proc_ok E max vis pol fl pol_acc c (old_paths (c_net c) L) em p base (m (c_net c)) Hh Hbo)
+    as [p' [m' [Hs [Hpe [Hpt [Hpc Hbn]]]]]].
+  - intros w. rewrite (Hemap (c_id c, w)). rewrite Hold.
+    rewrite (sel_pids E max vis pol pol_acc m0 (m (c_net c))). tauto.
   - intros w. rewrite (Hpend (c_net c, w)). apply fresh_old.
   - exists p'. split; [exact Hs|]. split; [exact Hwf'|]. split; [|split; auto].
-    + intros k. rewrite Hpe, Hcontrib. rewrite (Hemap k). tauto.
-    + intros k. rewrite Hpt, Hfresh. destruct (fst k =? c_net c); auto.
+    + intros k. rewrite Hpe, Hcontrib. rewrite (Hemap k).
+      rewrite (sel_pids E max vis pol pol_acc m' m0). tauto.
+    + exists (fun n q => if n =? c_net c then m' q else m n q). split.
+      * intros d Hd. destruct (Hpaths d Hd) as [[Hn Hp]|[Hn Hdl]].
+        -- rewrite Hn, N.eqb_refl, Hp. exact Hbn.
+        -- apply N.eqb_neq in Hn. rewrite Hn. apply Hbm; auto.
+      * intros k. rewrite Hpt, Hfresh. rewrite N.eqb_refl.
+        destruct (fst k =? c_net c) eqn:Hk; auto.
+        rewrite Hpend. unfold fresh_at. rewrite Hk. reflexivity.
 Qed.
 
-Lemma silent_ok : forall L L' em p base, wf L -> silent L L' ->
-  wf L' /\ (emap_ok L em -> emap_ok L' em) /\ (pend_ok L p base -> pend_ok L' p base).
+Lemma silent_fresh : forall m L L' k, wf L -> silent L L' -> FRESH m L' k = FRESH m L k.
 Proof.
-  intros L L' em p base Hwf Hs. pose proof Hwf as [Hw1 [Hw2 Hw3]].
+  intros m L L' k Hwf Hs. destruct Hs as [L net Hf | L net Hold].
+  - unfold rset. rewrite Hf. cbn [fst]. unfold fresh_at. rewrite rfind_app.
+    destruct (rfind (fst k) L); auto. cbn [rfind d_net d_paths].
+    destruct (net =? fst k); auto. rewrite sel_nil. reflexivity.
+  - unfold fresh_at. rewrite rfind_rfree.
+    destruct (fst k =? net) eqn:Hk; auto. apply N.eqb_eq in Hk. rewrite Hk.
+    unfold old_paths in Hold. destruct (rfind net L); auto. rewrite Hold, sel_nil. reflexivity.
+Qed.
+
+Lemma silent_ok : forall fl L L' em p base, wf L -> silent L L' ->
+  wf L' /\ (emap_ok L em -> emap_ok L' em) /\ (pend_ok fl L p base -> pend_ok fl L' p base).
+Proof.
+  intros fl L L' em p base Hwf Hs. pose proof Hwf as [Hw1 [Hw2 Hw3]].
+  assert (Hfr : forall m k, FRESH m L' k = FRESH m L k) by (intros; apply silent_fresh; auto).
   destruct Hs as [L net Hf | L net Hold].
   - assert (Hwf' : wf (fst (rset net [] L))) by (apply wf_rset; auto; constructor).
     unfold rset in *. rewrite Hf in *. cbn [fst] in *.
@@ -1099,9 +1310,9 @@ Proof.
       * intros [d [Hd Hc]]. apply in_app_or in Hd as [Hd|[Hd|[]]]; eauto.
         subst d. destruct Hc as [_ Hc]. unfold dn in Hc; cbn [d_net d_paths] in Hc.
         rewrite sel_nil in Hc. destruct Hc.
-    + intros Hp k. rewrite (Hp k). unfold fresh_at. rewrite rfind_app.
-      destruct (rfind (fst k) L); auto. cbn [rfind]. unfold dn; cbn [d_net d_paths].
-      destruct (net =? fst k); auto. rewrite sel_nil. reflexivity.
+    + intros [m [Hb Hp]]. exists m. split.
+      * intros d Hd. apply in_app_or in Hd as [Hd|[Hd|[]]]; auto. subst d. intros q [].
+      * intros k. rewrite Hfr. apply Hp.
   - split; [apply wf_rfree; auto|]. split.
     + intros He k. rewrite (He k). split.
       * intros [d [Hd Hc]]. exists d; split; auto. apply In_rfree. split; auto.
@@ -1109,58 +1320,69 @@ Proof.
         rewrite (rfind_In L d Hw1 Hd) in Hold. destruct Hc as [_ Hc].
         rewrite Hold, sel_nil in Hc. destruct Hc.
       * intros [d [Hd Hc]]. apply In_rfree in Hd as [Hd _]. eauto.
-    + intros Hp k. rewrite (Hp k). unfold fresh_at. rewrite rfind_rfree.
-      destruct (fst k =? net) eqn:Hk; auto. apply N.eqb_eq in Hk. rewrite Hk.
-      unfold old_paths in Hold. destruct (rfind net L); auto. rewrite Hold, sel_nil. reflexivity.
+    + intros [m [Hb Hp]]. exists m. split.
+      * intros d Hd. apply In_rfree in Hd as [Hd _]. auto.
+      * intros k. rewrite Hfr. apply Hp.
 Qed.
 
 (* the RIB now (R) is the RIB the neighbour has caught up with (L) plus the operations
    whose changes are still queued, in order *)
-Inductive Chain : rib -> list change -> rib -> Prop :=
-| ch_nil : forall R, Chain R [] R
-| ch_silent : forall L L1 ch R, silent L L1 -> Chain L1 ch R -> Chain L ch R
-| ch_emit : forall L c L1 ch R, emit L c L1 -> Chain L1 ch R -> Chain L (c :: ch) R.
+Inductive Chain (fl : list N) : rib -> list change -> rib -> Prop :=
+| ch_nil : forall R, Chain fl R [] R
+| ch_silent : forall L L1 ch R, silent L L1 -> Chain fl L1 ch R -> Chain fl L ch R
+| ch_emit : forall L c L1 ch R, emit fl L c L1 -> Chain fl L1 ch R -> Chain fl L (c :: ch) R.
 
-Lemma chain_snoc_emit : forall L ch R c R', Chain L ch R -> emit R c R' -> Chain L (ch ++ [c]) R'.
+Lemma chain_mono : forall fl fl' L ch R, (forall y, In y fl -> In y fl') ->
+  Chain fl L ch R -> Chain fl' L ch R.
 Proof.
-  intros L ch R c R' H He. induction H; cbn [app].
+  intros fl fl' L ch R Hsub H. induction H.
+  - constructor.
+  - eapply ch_silent; eauto.
+  - eapply ch_emit; eauto. eapply emit_mono; eauto.
+Qed.
+
+Lemma chain_snoc_emit : forall fl L ch R c R',
+  Chain fl L ch R -> emit fl R c R' -> Chain fl L (ch ++ [c]) R'.
+Proof.
+  intros fl L ch R c R' H He. induction H; cbn [app].
   - eapply ch_emit; eauto. constructor.
   - eapply ch_silent; eauto.
   - eapply ch_emit; eauto.
 Qed.
 
-Lemma chain_snoc_silent : forall L ch R R', Chain L ch R -> silent R R' -> Chain L ch R'.
+Lemma chain_snoc_silent : forall fl L ch R R', Chain fl L ch R -> silent R R' -> Chain fl L ch R'.
 Proof.
-  intros L ch R R' H He. induction H.
+  intros fl L ch R R' H He. induction H.
   - eapply ch_silent; eauto. constructor.
   - eapply ch_silent; eauto.
   - eapply ch_emit; eauto.
 Qed.
 
-Lemma chain_nil_transfer : forall L R em p base,
-  Chain L [] R -> wf L -> emap_ok L em -> pend_ok L p base ->
-  wf R /\ emap_ok R em /\ pend_ok R p base.
+Lemma chain_nil_transfer : forall fl L R em p base,
+  Chain fl L [] R -> wf L -> emap_ok L em -> pend_ok fl L p base ->
+  wf R /\ emap_ok R em /\ pend_ok fl R p base.
 Proof.
-  intros L R em p base H. remember [] as ch eqn:Hch. induction H; intros Hwf He Hp; auto.
-  - destruct (silent_ok L L1 em p base Hwf H) as [H1 [H2 H3]]. apply IHChain; auto.
+  intros fl L R em p base H. remember [] as ch eqn:Hch. induction H; intros Hwf He Hp; auto.
+  - destruct (silent_ok fl L L1 em p base Hwf H) as [H1 [H2 H3]]. apply IHChain; auto.
   - discriminate.
 Qed.
 
-Lemma chain_cons_inv : forall L c ch R em p base,
-  Chain L (c :: ch) R -> wf L -> emap_ok L em -> pend_ok L p base ->
-  exists L1 L2, wf L1 /\ emap_ok L1 em /\ pend_ok L1 p base /\ emit L1 c L2 /\ Chain L2 ch R.
+Lemma chain_cons_inv : forall fl L c ch R em p base,
+  Chain fl L (c :: ch) R -> wf L -> emap_ok L em -> pend_ok fl L p base ->
+  exists L1 L2, wf L1 /\ emap_ok L1 em /\ pend_ok fl L1 p base /\ emit fl L1 c L2 /\ Chain fl L2 ch R.
 Proof.
-  intros L c ch R em p base H. remember (c :: ch) as ch' eqn:Hch. revert c ch Hch.
+  intros fl L c ch R em p base H. remember (c :: ch) as ch' eqn:Hch. revert c ch Hch.
   induction H; intros c0 ch0 Hch Hwf He Hp.
   - discriminate.
-  - destruct (silent_ok L L1 em p base Hwf H) as [H1 [H2 H3]]. eapply IHChain; eauto.
+  - destruct (silent_ok fl L L1 em p base Hwf H) as [H1 [H2 H3]]. eapply IHChain; eauto.
   - inversion Hch; subst. exists L, L1. split; [|split; [|split; [|split]]]; auto.
 Qed.
 
 (* per-prefix: nothing queued for a prefix => the neighbour has caught up on it *)
-Lemma emit_other_net : forall L c L' k, emit L c L' -> c_net c <> fst k -> FRESH L' k = FRESH L k.
+Lemma emit_other_net : forall fl m L c L' k,
+  emit fl L c L' -> c_net c <> fst k -> FRESH m L' k = FRESH m L k.
 Proof.
-  intros L c L' k He Hne. unfold fresh_at. destruct He as [L net bc ac repl paths _ | L net d Hf];
+  intros fl m L c L' k He Hne. unfold fresh_at. destruct He as [L net bc ac repl paths _ | L net d Hf];
     cbn [c_net mkc] in Hne.
   - unfold rset. destruct (rfind net L) eqn:Hf; cbn [fst].
     + rewrite rfind_rupdate. apply N.eqb_neq in Hne. now rewrite (N.eqb_sym (fst k) net), Hne.
@@ -1169,32 +1391,33 @@ Proof.
   - rewrite rfind_rfree. apply N.eqb_neq in Hne. now rewrite (N.eqb_sym (fst k) net), Hne.
 Qed.
 
-Lemma silent_fresh : forall L L' k, wf L -> silent L L' -> FRESH L' k = FRESH L k.
+Lemma emit_wf : forall fl L c L', wf L -> emit fl L c L' -> wf L'.
+Proof. intros fl L c L' Hwf He. destruct (emit_emit_ok fl L c L' Hwf He); auto. Qed.
+
+Lemma silent_wf : forall L L', wf L -> silent L L' -> wf L'.
 Proof.
-  intros L L' k Hwf Hs.
-  destruct (silent_ok L L' [] (ptx_empty E) (fun k => FRESH L k) Hwf Hs) as [_ [_ H]].
-  assert (Hp : pend_ok L (ptx_empty E) (fun k => FRESH L k)) by (intros k'; reflexivity).
-  specialize (H Hp k). unfold T in H. cbn in H. auto.
+  intros L L' Hwf Hs. destruct Hs.
+  - apply wf_rset; auto. constructor.
+  - apply wf_rfree; auto.
 Qed.
 
-Lemma emit_wf : forall L c L', wf L -> emit L c L' -> wf L'.
-Proof. intros L c L' Hwf He. destruct (emit_emit_ok L c L' Hwf He); auto. Qed.
-
-Lemma chain_fresh_other : forall L ch R k,
-  Chain L ch R -> wf L -> (forall c, In c ch -> c_net c <> fst k) -> FRESH R k = FRESH L k.
+Lemma chain_fresh_other : forall fl m L ch R k,
+  Chain fl L ch R -> wf L -> (forall c, In c ch -> c_net c <> fst k) -> FRESH m R k = FRESH m L k.
 Proof.
-  intros L ch R k H. induction H; intros Hwf Hno; auto.
+  intros fl m L ch R k H. induction H; intros Hwf Hno; auto.
   - rewrite IHChain; auto.
     + apply silent_fresh; auto.
-    + destruct (silent_ok L L1 [] (ptx_empty E) (fun _ => None) Hwf H); auto.
+    + eapply silent_wf; eauto.
   - rewrite IHChain.
-    + apply (emit_other_net L c L1 k H). apply Hno; left; auto.
+    + apply (emit_other_net fl m L c L1 k H). apply Hno; left; auto.
     + eapply emit_wf; eauto.
     + intros c' Hc'. apply Hno; right; auto.
 Qed.
 
 (* ------------------------------------------------------------ the initial dump *)
-Definition items (d : dest) : list (N * E) := SEL (d_net d) (d_paths d).
+Section Dump.
+Variable fl : list N.
+Definition items (d : dest) : list (N * E) := SEL (lv fl) (d_net d) (d_paths d).
 Definition em_items (d : dest) : list key := map (fun x => (d_id d, fst x)) (items d).
 Definition g_items (d : dest) : list (key * E) := map (fun x => ((d_net d, fst x), snd x)) (items d).
 
@@ -1238,27 +1461,27 @@ Qed.
 
 Lemma group_step : forall d (em : emap) g,
   (forall w, ~ In (d_id d, w) em) -> NoDup (map p_pid (d_paths d)) ->
-  PC (snapc d) (em, SGroup E g) = (em ++ em_items d, SGroup E (g ++ g_items d)).
+  PC fl (snapc d) (em, SGroup E g) = (em ++ em_items d, SGroup E (g ++ g_items d)).
 Proof.
   intros d em g Hno Hnd. unfold em_items, g_items, items.
   destruct (N.eq_dec max 1) as [Hm|Hm].
   - assert (Hmt : (max =? 1) = true) by (rewrite Hm; reflexivity).
     unfold process_change, ap. rewrite Hmt. cbn [negb]. unfold proc_plain.
     cbn [snapc c_bc negb c_paths c_net c_id].
-    rewrite (sel_plain E max vis pol Hm).
+    rewrite (sel_plain E max vis pol Hm (lv fl)).
     assert (Hws : em_was_sent (d_id d) em = false).
     { destruct (em_was_sent (d_id d) em) eqn:Hw; auto.
       apply em_was_sent_spec in Hw as [w Hw]. exfalso; eapply Hno; eauto. }
     destruct (d_paths d) as [|b t].
     + rewrite Hws. cbn [map]. now rewrite !app_nil_r.
-    + unfold llgr_of; cbn [memN existsb]. destruct (vis b).
-      * destruct (pol false (d_net d) b) as [e|].
+    + unfold lv. destruct (vis b).
+      * destruct (pol (llgr_of fl b) (d_net d) b) as [e|].
         -- cbn [map fst snd sink_reach]. unfold wpid, aptx. rewrite Hmt. cbn [negb].
            rewrite em_add_new by apply Hno. reflexivity.
         -- rewrite Hws. cbn [map]. now rewrite !app_nil_r.
       * rewrite Hws. cbn [map]. now rewrite !app_nil_r.
   - unfold process_change, ap. apply N.eqb_neq in Hm as Hmb. rewrite Hmb. cbn [negb].
-    rewrite proc_ap_eq. cbn [snapc c_ac negb fst]. rewrite (top_n_sel E max vis pol Hm).
+    rewrite proc_ap_eq. cbn [snapc c_ac negb fst]. rewrite (top_n_sel E max vis pol fl Hm).
     cbn [c_net c_paths c_id]. rewrite em_ids_nil by auto. cbn [filter fold_left].
     rewrite (group_fold2 Hm); auto.
     apply sel_nodup; auto.
@@ -1279,7 +1502,7 @@ Qed.
 Lemma dump_closed : forall R (em : emap) g,
   NoDup (map d_id R) -> (forall d, In d R -> NoDup (map p_pid (d_paths d))) ->
   (forall d w, In d R -> ~ In (d_id d, w) em) ->
-  fold_left (fun s c => PC c s)
+  fold_left (fun s c => PC fl c s)
             (filter_map (fun d => match d_paths d with [] => None | _ => Some (snapc d) end) R)
             (em, SGroup E g) =
   (em ++ flat_map em_items R, SGroup E (g ++ flat_map g_items R)).
@@ -1334,7 +1557,7 @@ Qed.
 Lemma dump_lookup : forall R m k,
   NoDup (map d_net R) -> (forall d, In d R -> NoDup (map p_pid (d_paths d))) ->
   kfind k (mirror_reach E (flat_map g_items R) m) =
-  match FRESH R k with Some e => Some e | None => kfind k m end.
+  match FRESH (fun _ => lv fl) R k with Some e => Some e | None => kfind k m end.
 Proof.
   induction R as [|d R IH]; intros m k Hn Hp; cbn [flat_map].
   - reflexivity.
@@ -1345,8 +1568,8 @@ Proof.
     rewrite IH; auto. 2:{ intros; apply Hp; right; auto. }
     unfold g_items at 1. rewrite seg_lookup.
     2:{ unfold items. destruct (N.eq_dec max 1) as [Hm|Hm].
-        - rewrite (sel_plain E max vis pol Hm). destruct (d_paths d) as [|b t]; [constructor|].
-          destruct (vis b); [|constructor]. destruct (pol false (d_net d) b); cbn [map fst].
+        - rewrite (sel_plain E max vis pol Hm (lv fl)). destruct (d_paths d) as [|b t]; [constructor|].
+          destruct (vis b); [|constructor]. destruct (pol (lv fl b) (d_net d) b); cbn [map fst].
           + constructor; [intros []|constructor].
           + constructor.
         - apply sel_nodup; auto. apply Hp; left; auto. }
@@ -1357,12 +1580,15 @@ Proof.
     + reflexivity.
 Qed.
 
-Lemma dump_ok : forall R, wf R ->
-  emap_ok R (fst (dump E ByNet false max aptx vis pol [] R)) /\
-  pend_ok R (ptx_empty E)
-          (fun k => kfind k (mirror_reach E (snd (dump E ByNet false max aptx vis pol [] R)) [])).
+Definition marks_le (R : rib) : Prop :=
+  forall d q, In d R -> In q (d_paths d) -> p_mark q = true -> memN (p_src q) fl = true.
+
+Lemma dump_ok : forall R, wf R -> marks_le R ->
+  emap_ok R (fst (dump E ByNet false max aptx vis pol fl R)) /\
+  pend_ok fl R (ptx_empty E)
+          (fun k => kfind k (mirror_reach E (snd (dump E ByNet false max aptx vis pol fl R)) [])).
 Proof.
-  intros R [H1 [H2 H3]]. unfold dump. rewrite snapshot_unlimited.
+  intros R [H1 [H2 H3]] Hml. unfold dump. rewrite snapshot_unlimited.
   match goal with |- context [fold_left ?f ?l ?a] => set (X := fold_left f l a) end.
   assert (HX : X = ([] ++ flat_map em_items R, SGroup E ([] ++ flat_map g_items R)))
     by (apply dump_closed; auto).
@@ -1370,44 +1596,71 @@ Proof.
   - intros k. rewrite in_flat_map. split.
     + intros [d [Hd Hk]]. exists d; split; auto. unfold em_items in Hk.
       apply in_map_iff in Hk as [x [Hx Hi]]. subst k. split; cbn [fst snd]; auto.
-      apply in_map; auto.
+      rewrite (sel_pids E max vis pol pol_acc m0 (lv fl)). unfold items in Hi. apply in_map; auto.
     + intros [d [Hd [Hi Hc]]]. exists d; split; auto. unfold em_items.
-      apply in_map_iff in Hc as [x [Hx Hin]]. apply in_map_iff. exists x. split; auto.
+      rewrite (sel_pids E max vis pol pol_acc m0 (lv fl)) in Hc.
+      apply in_map_iff in Hc as [x [Hx Hin]]. apply in_map_iff. exists x. unfold items. split; auto.
       destruct k; cbn [fst snd] in *. congruence.
-  - intros k. unfold T. rewrite pview_empty. rewrite dump_lookup; auto.
-    cbn [kfind]. destruct (FRESH R k); auto.
+  - exists (fun _ => lv fl). split.
+    + intros d Hd q Hq. split; auto. intros Hm. unfold lv, llgr_of. eapply Hml; eauto.
+    + intros k. unfold T. rewrite pview_empty. rewrite dump_lookup; auto.
+      cbn [kfind]. destruct (FRESH (fun _ => lv fl) R k); auto.
 Qed.
 
+End Dump.
+
 (* ------------------------------------------------------------ the invariant *)
-Notation STEP := (step E ByNet false max aptx vis pol).
+(* the policy installed throughout the histories the theorems speak about *)
+Variable polv : N -> bool -> N -> path -> option E.
+Variable pv0 : N.
+Hypothesis Hpol : polv pv0 = pol.
+Notation STEP := (step E ByNet false max aptx vis polv).
 
 Definition basef (n : nbr E) : key -> option E :=
   fun k => kfind k (mirror_reach E (n_buf n) (n_mirror n)).
 
-Definition nbr_ok (R : rib) (n : nbr E) : Prop :=
-  exists L, wf L /\ Chain L (n_chan n) R /\ emap_ok L (n_emap n) /\
-            pend_ok L (n_ptx n) (basef n) /\ coherent E (n_ptx n).
+Definition nbr_ok (fl : list N) (R : rib) (n : nbr E) : Prop :=
+  exists L, wf L /\ Chain fl L (n_chan n) R /\ emap_ok L (n_emap n) /\
+            pend_ok fl L (n_ptx n) (basef n) /\ coherent E (n_ptx n).
 
 (* T1: the invariant linking the RIB, the undelivered changes, the ExportMap, the pending
-   sets and the mirror *)
+   sets, the mirror and the LLGR-stale flags *)
 Definition Inv (s : state E) : Prop :=
-  wf (s_rib s) /\ s_llgr s = [] /\ (n_reg (s_nbr s) = true -> nbr_ok (s_rib s) (s_nbr s)).
+  wf (s_rib s) /\ marks_live (s_llgr s) (s_rib s) /\
+  (n_reg (s_nbr s) = true -> nbr_ok (s_llgr s) (s_rib s) (s_nbr s)) /\
+  s_pv s = pv0.
+
+Lemma marks_live_le : forall fl R, marks_live fl R -> marks_le fl R.
+Proof. intros fl R H d q Hd Hq Hm. rewrite <- (H d q Hd Hq). exact Hm. Qed.
 
 Lemma push_reg : forall c n, n_reg (push E c n) = n_reg n.
 Proof. intros c n. unfold push. destruct (n_reg n) eqn:H; auto. Qed.
 
-Lemma nbr_ok_emit : forall R c R' n, n_reg n = true -> nbr_ok R n -> emit R c R' -> nbr_ok R' (push E c n).
+Lemma nbr_ok_emit : forall fl R c R' n,
+  n_reg n = true -> nbr_ok fl R n -> emit fl R c R' -> nbr_ok fl R' (push E c n).
 Proof.
-  intros R c R' n Hr [L [H1 [H2 [H3 [H4 H5]]]]] He. unfold push. rewrite Hr.
+  intros fl R c R' n Hr [L [H1 [H2 [H3 [H4 H5]]]]] He. unfold push. rewrite Hr.
   exists L. cbn [n_chan n_emap n_ptx]. split; [|split; [|split; [|split]]]; auto.
   eapply chain_snoc_emit; eauto.
 Qed.
 
-Lemma nbr_ok_silent : forall R R' n, nbr_ok R n -> silent R R' -> nbr_ok R' n.
+Lemma nbr_ok_silent : forall fl R R' n, nbr_ok fl R n -> silent R R' -> nbr_ok fl R' n.
 Proof.
-  intros R R' n [L [H1 [H2 [H3 [H4 H5]]]]] Hs. exists L. split; [|split; [|split; [|split]]]; auto.
+  intros fl R R' n [L [H1 [H2 [H3 [H4 H5]]]]] Hs. exists L. split; [|split; [|split; [|split]]]; auto.
   eapply chain_snoc_silent; eauto.
 Qed.
+
+Lemma nbr_ok_mono : forall fl fl' R n, (forall y, In y fl -> In y fl') ->
+  nbr_ok fl R n -> nbr_ok fl' R n.
+Proof.
+  intros fl fl' R n Hsub [L [H1 [H2 [H3 [[m [Hb Hp]] H5]]]]].
+  exists L. split; [|split; [|split; [|split]]]; auto.
+  - eapply chain_mono; eauto.
+  - exists m. split; auto. intros d Hd. eapply bnd_mono; eauto.
+Qed.
+
+Lemma set_llgr_sub : forall src fl y, In y fl -> In y (set_llgr src fl).
+Proof. intros src fl y H. unfold set_llgr. destruct (memN src fl); auto. right; auto. Qed.
 
 Lemma NoDup_map_inj : forall {A B} (f : A -> B) l a b,
   NoDup (map f l) -> In a l -> In b l -> f a = f b -> a = b.
@@ -1429,119 +1682,185 @@ Proof.
     + now rewrite IH.
 Qed.
 
-Lemma emit_snap : forall R d, wf R -> In d R -> emit R (snapc d) R.
+Lemma emit_snap : forall fl R d r, wf R -> marks_le fl R -> In d R ->
+  emit fl R (mkc (d_net d) (d_id d) true true r (d_paths d)) R.
 Proof.
-  intros R d [H1 [H2 H3]] Hd.
-  pose proof (emit_set R (d_net d) true true None (d_paths d)) as He.
+  intros fl R d r [H1 [H2 H3]] Hml Hd.
+  pose proof (emit_set fl R (d_net d) true true r (d_paths d)) as He.
   unfold rset in He. rewrite (rfind_In R d H1 Hd) in He. cbn [fst snd] in He.
   rewrite rupdate_same in He by auto. apply He.
-  cbn [truthful]. unfold old_paths. rewrite (rfind_In R d H1 Hd).
-  split; [discriminate|]. split; [discriminate|]. split; [auto|].
-  intros p q Hp Hq Hpq. left. eapply NoDup_map_inj; eauto.
+  unfold truthful_set, old_paths. rewrite (rfind_In R d H1 Hd).
+  split; [discriminate|]. split; [discriminate|]. split; [auto|]. split.
+  - intros p q Hp Hq Hpq. left. eapply NoDup_map_inj; eauto.
+  - intros q Hq Hm. eapply Hml; eauto.
 Qed.
 
-Lemma refresh_ok : forall R (ds : list dest) (em : emap) p base,
-  wf R -> (forall d, In d ds -> In d R) ->
-  emap_ok R em -> pend_ok R p base -> coherent E p ->
-  exists p', snd (fold_left (fun a c => PC c a)
-                            (filter_map (fun d => match d_paths d with [] => None | _ => Some (snapc d) end) ds)
-                            (em, SPtx E p)) = SPtx E p' /\
-             emap_ok R (fst (fold_left (fun a c => PC c a)
-                            (filter_map (fun d => match d_paths d with [] => None | _ => Some (snapc d) end) ds)
-                            (em, SPtx E p))) /\
-             pend_ok R p' base /\ coherent E p'.
+Lemma refresh_ok : forall fl R (cs : list change) (em : emap) p base,
+  wf R -> (forall c, In c cs -> emit fl R c R) ->
+  emap_ok R em -> pend_ok fl R p base -> coherent E p ->
+  exists p', snd (fold_left (fun a c => PC fl c a) cs (em, SPtx E p)) = SPtx E p' /\
+             emap_ok R (fst (fold_left (fun a c => PC fl c a) cs (em, SPtx E p))) /\
+             pend_ok fl R p' base /\ coherent E p'.
 Proof.
-  intros R. induction ds as [|d ds IH]; intros em p base Hwf Hsub He Hp Hc; cbn [filter_map fold_left].
+  intros fl R. induction cs as [|c cs IH]; intros em p base Hwf Hall He Hp Hc; cbn [fold_left].
   - exists p; auto.
-  - destruct (d_paths d) eqn:Hdp.
-    + apply IH; auto. intros; apply Hsub; right; auto.
-    + cbn [fold_left].
-      destruct (deliver_ok R (snapc d) R em p base Hwf) as [p1 [Hs [_ [He1 [Hp1 Hc1]]]]]; auto.
-      { apply emit_snap; auto. apply Hsub; left; auto. }
-      remember (PC (snapc d) (em, SPtx E p)) as st eqn:Hst. destruct st as [em1 sk1].
-      cbn [fst snd] in Hs, He1. subst sk1.
-      apply IH; auto. intros; apply Hsub; right; auto.
+  - destruct (deliver_ok fl R c R em p base Hwf) as [p1 [Hs [_ [He1 [Hp1 Hc1]]]]]; auto.
+    { apply Hall; left; auto. }
+    remember (PC fl c (em, SPtx E p)) as st eqn:Hst. destruct st as [em1 sk1].
+    cbn [fst snd] in Hs, He1. subst sk1.
+    apply IH; auto. intros; apply Hall; right; auto.
 Qed.
 
-Lemma step_inv : forall s l,
-  Inv s -> ok_label E s l -> Inv (STEP s l).
+Lemma refresh_changes_emit : forall fl R c, wf R -> marks_le fl R ->
+  In c (refresh_changes max (snapshot false max R)) -> emit fl R c R.
 Proof.
-  intros [R fl n] l [Hwf [Hfl Hn]] [Htr [Hnl Hnr]]. cbn [s_rib s_llgr s_nbr] in *. subst fl.
-  destruct l as [net bc ac repl paths | net | net emit_ | src b | | | | ]; cbn [step s_rib s_llgr s_nbr].
+  intros fl R c Hwf Hml Hc. rewrite snapshot_unlimited in Hc. unfold refresh_changes in Hc.
+  assert (Hsnap : forall c0, In c0 (filter_map (fun d => match d_paths d with [] => None | _ => Some (snapc d) end) R) ->
+                            exists d, In d R /\ c0 = snapc d).
+  { intros c0 H0. apply In_filter_map in H0 as [d [Hd Hs]]. exists d. split; auto.
+    destruct (d_paths d); inversion Hs; auto. }
+  destruct (ap max).
+  - apply in_flat_map in Hc as [c0 [Hc0 Hc]]. destruct (Hsnap c0 Hc0) as [d [Hd ->]].
+    apply in_map_iff in Hc as [q [Hq _]]. subst c. cbn [snapc c_net c_id c_paths].
+    apply (emit_snap fl R d (Some (p_pid q))); auto.
+  - destruct (Hsnap c Hc) as [d [Hd ->]]. apply (emit_snap fl R d None); auto.
+Qed.
+
+(* one RIB operation that leaves the destination in place and emits a change *)
+Lemma rib_set_inv : forall fl s x,
+  s_llgr s = fl -> wf (s_rib s) -> (n_reg (s_nbr s) = true -> nbr_ok fl (s_rib s) (s_nbr s)) ->
+  truthful_set fl (s_rib s) x ->
+  let s' := rib_set E s x in
+  s_llgr s' = fl /\ wf (s_rib s') /\ (n_reg (s_nbr s') = true -> nbr_ok fl (s_rib s') (s_nbr s')) /\
+  s_rib s' = fst (rset (fst (fst (fst (fst x)))) (snd x) (s_rib s)) /\ s_pv s' = s_pv s /\
+  (forall d, In d (s_rib s') -> (d_net d = fst (fst (fst (fst x))) /\ d_paths d = snd x) \/
+                                (d_net d <> fst (fst (fst (fst x))) /\ In d (s_rib s))).
+Proof.
+  intros fl [R fl0 pvv n] [[[[net bc] ac] repl] paths] Hfl Hwf Hn Htr. cbn [s_rib s_llgr s_nbr s_pv fst snd] in *.
+  subst fl0. pose proof (emit_set fl R net bc ac repl paths Htr) as He. unfold mkc in He.
+  destruct (emit_emit_ok fl R _ _ Hwf He) as [Hwf' _ _ _ _ Hpaths _]. cbn [c_net c_paths] in Hpaths.
+  cbv zeta. unfold rib_set. cbn [s_rib s_llgr s_nbr s_pv].
+  destruct (rset net paths R) as [R' i] eqn:Hrs. cbn [fst snd] in *.
+  cbn [s_rib s_llgr s_nbr s_pv]. split; [reflexivity|]. split; [exact Hwf'|]. split; [|split; [|split]]; auto.
+  rewrite push_reg. intros Hr. apply (nbr_ok_emit fl R _ R' n); auto.
+Qed.
+
+Lemma sets_inv : forall fl rs s,
+  s_llgr s = fl -> wf (s_rib s) -> (n_reg (s_nbr s) = true -> nbr_ok fl (s_rib s) (s_nbr s)) ->
+  truthful_sets fl (s_rib s) rs ->
+  let s' := fold_left (rib_set E) rs s in
+  s_llgr s' = fl /\ wf (s_rib s') /\ marks_live fl (s_rib s') /\
+  (n_reg (s_nbr s') = true -> nbr_ok fl (s_rib s') (s_nbr s')) /\ s_pv s' = s_pv s.
+Proof.
+  intros fl. induction rs as [|x rs IH]; intros s Hfl Hwf Hn Ht; cbn [fold_left truthful_sets] in *.
+  - auto.
+  - destruct Ht as [Ht1 Ht2].
+    destruct (rib_set_inv fl s x Hfl Hwf Hn Ht1) as [G1 [G2 [G3 [G4 [G5 _]]]]].
+    rewrite <- G5. apply IH; auto. rewrite G4. exact Ht2.
+Qed.
+
+Lemma step_inv : forall s l, Inv s -> ok_label E s l -> Inv (STEP s l).
+Proof.
+  intros s l [Hwf [Hml [Hn Hpv]]] [Htr Hnr].
+  destruct l as [net bc ac repl paths | net | net emit_ | src b | src rs | | | | | | v].
   - (* RibSet *)
-    pose proof (emit_set R net bc ac repl paths Htr) as He. unfold mkc in He.
-    destruct (rset net paths R) as [R' i] eqn:Hrs. cbn [fst snd] in He.
-    split; [|split]; cbn [s_rib s_llgr s_nbr]; auto.
-    + eapply emit_wf; eauto.
-    + rewrite push_reg. intros Hr. apply (nbr_ok_emit R _ R' n); auto.
+    cbn [step]. destruct Htr as [Hts Hmk].
+    destruct (rib_set_inv (s_llgr s) s (net, bc, ac, repl, paths) eq_refl Hwf Hn Hts)
+      as [G1 [G2 [G3 [_ [G4 G5]]]]]. cbn [fst snd] in G5.
+    split; [exact G2|]. split; [|split; [rewrite G1; exact G3|congruence]].
+    rewrite G1. intros d q Hd Hq. destruct (G5 d Hd) as [[_ Hp]|[_ Hd']].
+    + rewrite Hp in Hq. apply Hmk; auto.
+    + eapply Hml; eauto.
   - (* RibTouch *)
-    destruct (rfind net R) eqn:Hf; cbn [s_rib s_llgr s_nbr].
-    + split; [|split]; auto.
+    destruct s as [R fl pvv n]. cbn [s_rib s_llgr s_nbr s_pv step] in *.
+    destruct (rfind net R) eqn:Hf; cbn [s_rib s_llgr s_nbr s_pv].
+    + split; [|split; [|split]]; auto.
     + pose proof (silent_touch R net Hf) as Hs.
-      split; [|split]; cbn [s_rib s_llgr s_nbr]; auto.
+      split; [|split; [|split]]; cbn [s_rib s_llgr s_nbr s_pv]; auto.
       * apply wf_rset; auto. constructor.
+      * unfold rset. rewrite Hf. cbn [fst]. intros d q Hd Hq.
+        apply in_app_or in Hd as [Hd|[Hd|[]]]; [eapply Hml; eauto | subst d; destruct Hq].
       * intros Hr. eapply nbr_ok_silent; eauto.
   - (* RibFree *)
-    destruct (rfind net R) as [d|] eqn:Hf; cbn [s_rib s_llgr s_nbr].
+    destruct s as [R fl pvv n]. cbn [s_rib s_llgr s_nbr s_pv step] in *.
+    assert (Hmf : marks_live fl (rfree net R)).
+    { intros d q Hd Hq. apply In_rfree in Hd as [Hd _]. eapply Hml; eauto. }
+    destruct (rfind net R) as [d|] eqn:Hf; cbn [s_rib s_llgr s_nbr s_pv].
     + destruct emit_.
-      * pose proof (emit_free R net d Hf) as He. unfold mkc in He.
-        split; [|split]; cbn [s_rib s_llgr s_nbr]; auto.
+      * pose proof (emit_free fl R net d Hf) as He. unfold mkc in He.
+        split; [|split; [|split]]; cbn [s_rib s_llgr s_nbr s_pv]; auto.
         -- apply wf_rfree; auto.
-        -- rewrite push_reg. intros Hr. apply (nbr_ok_emit R _ (rfree net R) n); auto.
+        -- rewrite push_reg. intros Hr. apply (nbr_ok_emit fl R _ (rfree net R) n); auto.
       * cbn [truthful] in Htr. pose proof (silent_free R net Htr) as Hs.
-        split; [|split]; cbn [s_rib s_llgr s_nbr]; auto.
+        split; [|split; [|split]]; cbn [s_rib s_llgr s_nbr s_pv]; auto.
         -- apply wf_rfree; auto.
         -- intros Hr. eapply nbr_ok_silent; eauto.
-    + split; [|split]; auto.
-  - (* LlgrFlip *)
-    destruct b.
-    + exfalso. apply Hnl. exists src; reflexivity.
-    + split; [|split]; cbn [s_rib s_llgr s_nbr filter]; auto.
+    + split; [|split; [|split]]; auto.
+  - (* LlgrFlip: only flips that flip nothing *)
+    destruct s as [R fl pvv n]. cbn [s_rib s_llgr s_nbr s_pv step truthful] in *.
+    rewrite Htr. split; [|split; [|split]]; auto.
+  - (* LlgrMark *)
+    destruct s as [R fl pvv n]. cbn [s_rib s_llgr s_nbr s_pv step truthful] in *.
+    set (fl' := set_llgr src fl) in *.
+    destruct (sets_inv fl' rs {| s_rib := R; s_llgr := fl'; s_pv := pvv; s_nbr := n |})
+      as [G1 [G2 [G3 [G4 G5]]]]; auto.
+    + cbn [s_nbr s_rib]. intros Hr. apply (nbr_ok_mono fl fl'); auto. intros y. apply set_llgr_sub.
+    + split; [exact G2|]. split; [rewrite G1; auto|]. split; [rewrite G1; auto|].
+      rewrite G5. cbn [s_pv]. exact Hpv.
   - (* Deliver *)
+    destruct s as [R fl pvv n]. cbn [s_rib s_llgr s_nbr s_pv step] in *. subst pvv. rewrite Hpol.
     destruct (n_chan n) as [|c rest] eqn:Hch.
-    + split; [|split]; auto.
-    + unfold with_nbr. split; [|split]; cbn [s_rib s_llgr s_nbr n_reg]; auto.
+    + split; [|split; [|split]]; auto.
+    + unfold with_nbr. split; [|split; [|split]]; cbn [s_rib s_llgr s_nbr s_pv n_reg]; auto.
       intros Hr. destruct (Hn Hr) as [L [H1 [H2 [H3 [H4 H5]]]]]. rewrite Hch in H2.
-      destruct (chain_cons_inv L c rest R (n_emap n) (n_ptx n) (basef n) H2 H1 H3 H4)
+      destruct (chain_cons_inv fl L c rest R (n_emap n) (n_ptx n) (basef n) H2 H1 H3 H4)
         as [L1 [L2 [G1 [G2 [G3 [G4 G5]]]]]].
-      destruct (deliver_ok L1 c L2 (n_emap n) (n_ptx n) (basef n) G1 G4 G2 G3 H5)
+      destruct (deliver_ok fl L1 c L2 (n_emap n) (n_ptx n) (basef n) G1 G4 G2 G3 H5)
         as [p' [Hs [Hw2 [He2 [Hp2 Hc2]]]]].
       exists L2. cbn [n_chan n_emap n_ptx]. rewrite Hs. cbn [sink_ptx].
       split; [|split; [|split; [|split]]]; auto.
   - (* Flush *)
-    unfold with_nbr. split; [|split]; cbn [s_rib s_llgr s_nbr n_reg]; auto.
-    intros Hr. destruct (Hn Hr) as [L [H1 [H2 [H3 [H4 H5]]]]].
+    destruct s as [R fl pvv n]. cbn [s_rib s_llgr s_nbr s_pv step] in *.
+    unfold with_nbr. split; [|split; [|split]]; cbn [s_rib s_llgr s_nbr s_pv n_reg]; auto.
+    intros Hr. destruct (Hn Hr) as [L [H1 [H2 [H3 [[m [Hb H4]] H5]]]]].
     exists L. cbn [n_chan n_emap n_ptx]. split; [|split; [|split; [|split]]]; auto.
-    + intros k. unfold T. rewrite pview_empty. unfold basef. cbn [n_buf n_mirror].
+    + exists m. split; auto. intros k. unfold T. rewrite pview_empty. unfold basef. cbn [n_buf n_mirror].
       unfold mirror_reach at 1. cbn [fold_left]. rewrite flush_lookup by auto. apply H4.
     + apply coherent_empty.
   - (* Register *)
-    unfold with_nbr. split; [|split]; cbn [s_rib s_llgr s_nbr n_reg]; auto.
-    intros _. destruct (dump_ok R Hwf) as [D1 D2].
+    destruct s as [R fl pvv n]. cbn [s_rib s_llgr s_nbr s_pv step] in *. subst pvv. rewrite Hpol.
+    unfold with_nbr. split; [|split; [|split]]; cbn [s_rib s_llgr s_nbr s_pv n_reg]; auto.
+    intros _. destruct (dump_ok fl R Hwf (marks_live_le fl R Hml)) as [D1 D2].
     exists R. cbn [n_chan n_emap n_ptx]. split; [|split; [|split; [|split]]]; auto.
     + constructor.
     + apply coherent_empty.
   - (* Refresh *)
-    destruct (n_reg n) eqn:Hr; [|split; [|split]; cbn [s_rib s_llgr s_nbr]; auto; congruence].
-    unfold with_nbr. split; [|split]; cbn [s_rib s_llgr s_nbr n_reg]; auto.
+    destruct s as [R fl pvv n]. cbn [s_rib s_llgr s_nbr s_pv step] in *. subst pvv. rewrite Hpol.
+    destruct (n_reg n) eqn:Hr; [|split; [|split; [|split]]; cbn [s_rib s_llgr s_nbr s_pv]; auto; congruence].
+    unfold with_nbr. split; [|split; [|split]]; cbn [s_rib s_llgr s_nbr s_pv n_reg]; auto.
     intros _. destruct (Hn eq_refl) as [L [H1 [H2 [H3 [H4 H5]]]]].
     assert (Hch : n_chan n = []).
     { destruct (n_chan n) eqn:Hc; auto. exfalso. apply Hnr. split; auto. cbn [s_nbr]. rewrite Hc. discriminate. }
     rewrite Hch in H2.
-    destruct (chain_nil_transfer L R (n_emap n) (n_ptx n) (basef n) H2 H1 H3 H4) as [G1 [G2 G3]].
-    rewrite snapshot_unlimited.
-    destruct (refresh_ok R R (n_emap n) (n_ptx n) (basef n) Hwf (fun d H => H) G2 G3 H5)
-      as [p' [Hs [He2 [Hp2 Hc2]]]].
+    destruct (chain_nil_transfer fl L R (n_emap n) (n_ptx n) (basef n) H2 H1 H3 H4) as [G1 [G2 G3]].
+    destruct (refresh_ok fl R (refresh_changes max (snapshot false max R)) (n_emap n) (n_ptx n) (basef n) Hwf
+                         (fun c Hc => refresh_changes_emit fl R c Hwf (marks_live_le fl R Hml) Hc)
+                         G2 G3 H5) as [p' [Hs [He2 [Hp2 Hc2]]]].
     exists R. cbn [n_chan n_emap n_ptx]. rewrite Hch, Hs. cbn [sink_ptx].
     split; [|split; [|split; [|split]]]; auto. constructor.
+  - (* Unregister *)
+    destruct s as [R fl pvv n]. cbn [s_rib s_llgr s_nbr s_pv step] in *.
+    unfold with_nbr. split; [|split; [|split]]; cbn [s_rib s_llgr s_nbr s_pv nbr0 n_reg]; auto. discriminate.
+  - (* PolicyChange: not a step of the histories considered *)
+    destruct Htr.
 Qed.
 
-Notation RUN := (run_from E ByNet false max aptx vis pol).
-Notation OKRUN := (ok_run E ByNet false max aptx vis pol).
-Notation FRESHD := (fresh E ByNet false max aptx vis pol).
+Notation RUN := (run_from E ByNet false max aptx vis polv).
+Notation OKRUN := (ok_run E ByNet false max aptx vis polv).
+Notation FRESHD := (fresh E ByNet false max aptx vis polv).
 
-Lemma inv_state0 : Inv (state0 E).
-Proof. split; [apply wf_nil | split; [reflexivity | discriminate]]. Qed.
+Lemma inv_state0 : pv0 = 0 -> Inv (state0 E).
+Proof. intros H. split; [apply wf_nil | split; [intros d q [] | split; [discriminate | auto]]]. Qed.
 
 Lemma run_inv : forall ls s, Inv s -> OKRUN s ls -> Inv (RUN s ls).
 Proof.
@@ -1549,26 +1868,47 @@ Proof.
   destruct Hok as [Hl Hrest]. apply IH; auto. apply step_inv; auto.
 Qed.
 
-Lemma fresh_closed : forall s, Inv s -> forall k, kfind k (FRESHD s) = FRESH (s_rib s) k.
+Lemma fresh_marker_live : forall fl R m k, marks_live fl R -> bnd_rib fl R m ->
+  FRESH m R k = FRESH (live fl) R k.
 Proof.
-  intros s [Hwf [Hfl _]] k. unfold fresh. rewrite Hfl.
-  destruct (dump_ok (s_rib s) Hwf) as [_ D2]. specialize (D2 k). unfold T in D2.
-  rewrite pview_empty in D2. exact D2.
+  intros fl R m k Hml Hb. unfold fresh_at. destruct (rfind (fst k) R) as [d|] eqn:Hf; auto.
+  destruct (rfind_Some _ _ _ Hf) as [Hd Hn]. f_equal. apply sel_ext. intros q Hq.
+  rewrite <- Hn. destruct (Hb d Hd q Hq) as [B1 B2]. unfold live.
+  rewrite <- (Hml d q Hd Hq). unfold lv, llgr_of in B2. rewrite <- (Hml d q Hd Hq) in B2.
+  destruct (m (d_net d) q) eqn:Hm, (p_mark q) eqn:Hk; auto;
+    try (symmetry; apply B2; reflexivity); try (apply B1; reflexivity).
+Qed.
+
+Lemma fresh_closed : forall s, Inv s ->
+  forall k, kfind k (FRESHD s) = FRESH (live (s_llgr s)) (s_rib s) k.
+Proof.
+  intros s [Hwf [Hml [_ Hpv]]] k. unfold fresh. rewrite Hpv, Hpol.
+  destruct (dump_ok (s_llgr s) (s_rib s) Hwf (marks_live_le _ _ Hml)) as [_ [m [Hb D2]]].
+  specialize (D2 k). unfold T in D2. rewrite pview_empty in D2. rewrite D2.
+  apply fresh_marker_live; auto.
 Qed.
 
 Lemma pview_nil : forall (p : ptx E) k, t_reach p = [] -> t_unreach p = [] -> pview E p k = None.
 Proof. intros p k H1 H2. unfold pview. rewrite H1, H2. reflexivity. Qed.
+
+Lemma fresh_none_indep : forall m m' R k, FRESH m R k = None -> FRESH m' R k = None.
+Proof.
+  intros m m' R k H. unfold fresh_at in *. destruct (rfind (fst k) R); auto.
+  apply assoc_None. apply assoc_None in H.
+  rewrite (sel_pids E max vis pol pol_acc (m' (fst k)) (m (fst k))). exact H.
+Qed.
 
 (* T2 *)
 Lemma quiescent_eq : forall s, Inv s -> established E s -> quiescent E s ->
   same_routes E (view E s) (FRESHD s).
 Proof.
   intros s Hinv Hest [Q1 [Q2 [Q3 Q4]]] k. rewrite (fresh_closed s Hinv).
-  destruct Hinv as [Hwf [Hfl Hn]]. destruct (Hn Hest) as [L [H1 [H2 [H3 [H4 H5]]]]].
+  destruct Hinv as [Hwf [Hml [Hn _]]]. destruct (Hn Hest) as [L [H1 [H2 [H3 [H4 H5]]]]].
   rewrite Q1 in H2.
-  destruct (chain_nil_transfer L _ _ _ _ H2 H1 H3 H4) as [_ [_ G3]].
+  destruct (chain_nil_transfer _ L _ _ _ _ H2 H1 H3 H4) as [_ [_ [m [Hb G3]]]].
   specialize (G3 k). unfold T in G3. rewrite pview_nil in G3 by auto.
-  unfold basef in G3. rewrite Q2 in G3. unfold view. exact G3.
+  unfold basef in G3. rewrite Q2 in G3. unfold view.
+  rewrite <- (fresh_marker_live _ _ m k Hml Hb). exact G3.
 Qed.
 
 (* T3 *)
@@ -1577,14 +1917,15 @@ Lemma no_lost : forall s, Inv s -> established E s -> forall k e,
   withdrawal_pending E s k \/ change_undelivered E s k.
 Proof.
   intros s Hinv Hest k e Hv Hf. rewrite (fresh_closed s Hinv) in Hf.
-  destruct Hinv as [Hwf [Hfl Hn]]. destruct (Hn Hest) as [L [H1 [H2 [H3 [H4 H5]]]]].
+  destruct Hinv as [Hwf [Hml [Hn _]]]. destruct (Hn Hest) as [L [H1 [H2 [H3 [[m [Hb H4]] H5]]]]].
   destruct (existsb (fun c => c_net c =? fst k) (n_chan (s_nbr s))) eqn:Hex.
   - right. apply existsb_exists in Hex as [c [Hc Hk]]. apply N.eqb_eq in Hk. exists c; auto.
   - left. assert (Hno : forall c, In c (n_chan (s_nbr s)) -> c_net c <> fst k).
     { intros c Hc He. assert (existsb (fun c => c_net c =? fst k) (n_chan (s_nbr s)) = true).
       { apply existsb_exists. exists c; split; auto. now apply N.eqb_eq. }
       congruence. }
-    pose proof (chain_fresh_other L _ _ k H2 H1 Hno) as Hfr. rewrite Hf in Hfr.
+    pose proof (chain_fresh_other _ m L _ _ k H2 H1 Hno) as Hfr.
+    rewrite (fresh_none_indep _ m _ _ Hf) in Hfr.
     specialize (H4 k). rewrite <- Hfr in H4. unfold T in H4.
     unfold withdrawal_pending, drained_unreach.
     destruct (pview E (n_ptx (s_nbr s)) k) as [[e'|]|] eqn:Hp.
@@ -1601,43 +1942,53 @@ Qed.
 End Inv.
 
 (* ------------------------------------------------------------ final statements *)
-(* For every payload type, send-max, visibility filter and export policy; the model is
-   the code after the two fix commits (ByNet keying, unlimited snapshot) with
-   addpath_tx = (effective_max > 1), which is what the FSM negotiates (property C16). *)
+(* For every payload type, send-max, visibility filter and export policy (with the contract
+   that the LLGR_STALE marking does not decide acceptance); the model is the code after the
+   fix commits (ByNet keying, unlimited snapshot, restale_llgr reporting the marked paths)
+   with addpath_tx = (effective_max > 1), which is what the FSM negotiates (property C16). *)
 Definition MAXOK (max : N) : bool := negb (max =? 1).
 
 Theorem C01_export_inv_preserved :
-  forall (E : Type) (max : N) (vis : path -> bool) (pol : bool -> N -> path -> option E)
+  forall (E : Type) (max : N) (vis : path -> bool) (pol : N -> bool -> N -> path -> option E)
          (ls : list label),
+    pol_marks_after_accept E (pol 0) ->
     ok_run E ByNet false max (MAXOK max) vis pol (state0 E) ls ->
-    Inv E max vis pol (run E ByNet false max (MAXOK max) vis pol ls).
-Proof. intros. unfold run. apply run_inv; auto. apply inv_state0. Qed.
+    Inv E max vis (pol 0) 0 (run E ByNet false max (MAXOK max) vis pol ls).
+Proof. intros. unfold run. apply (run_inv E max vis (pol 0) H pol 0 eq_refl); auto. apply inv_state0; auto. Qed.
+
+Lemma ok_of_truthful :
+  forall (E : Type) (max : N) (vis : path -> bool) (pol : N -> bool -> N -> path -> option E)
+         (ls : list label) s0,
+    truthful_run E ByNet false max (MAXOK max) vis pol s0 ls ->
+    ~ Known_C01_refresh_race E ByNet false max (MAXOK max) vis pol s0 ls ->
+    ok_run E ByNet false max (MAXOK max) vis pol s0 ls.
+Proof.
+  intros E max vis pol. induction ls as [|l ls IH]; intros s0 Ht Hr; cbn [ok_run]; auto.
+  cbn [truthful_run Known_C01_refresh_race] in *.
+  destruct Ht as [Ht1 Ht2]. split.
+  - split; [auto|tauto].
+  - apply IH; tauto.
+Qed.
 
 Theorem C01_quiescent_view_eq_fresh_outside_known :
-  forall (E : Type) (max : N) (vis : path -> bool) (pol : bool -> N -> path -> option E)
+  forall (E : Type) (max : N) (vis : path -> bool) (pol : N -> bool -> N -> path -> option E)
          (ls : list label),
+    pol_marks_after_accept E (pol 0) ->
     truthful_run E ByNet false max (MAXOK max) vis pol (state0 E) ls ->
-    ~ Known_C01_llgr ls ->
     ~ Known_C01_refresh_race E ByNet false max (MAXOK max) vis pol (state0 E) ls ->
     let s := run E ByNet false max (MAXOK max) vis pol ls in
     established E s -> quiescent E s ->
     same_routes E (view E s) (fresh E ByNet false max (MAXOK max) vis pol s).
 Proof.
-  intros E max vis pol ls Ht Hl Hr s He Hq. apply quiescent_eq; auto.
-  apply C01_export_inv_preserved.
-  clear s He Hq. revert Ht Hl Hr. generalize (state0 E).
-  induction ls as [|l ls IH]; intros s0 Ht Hl Hr; cbn [ok_run]; auto.
-  cbn [truthful_run Known_C01_llgr Known_C01_refresh_race] in *.
-  destruct Ht as [Ht1 Ht2]. split.
-  - split; [auto|split]; tauto.
-  - apply IH; tauto.
+  intros E max vis pol ls Hpa Ht Hr s He Hq. apply (quiescent_eq E max vis (pol 0) Hpa pol 0 eq_refl); auto.
+  apply C01_export_inv_preserved; auto. apply ok_of_truthful; auto.
 Qed.
 
 Theorem C01_no_lost_withdrawal_outside_known :
-  forall (E : Type) (max : N) (vis : path -> bool) (pol : bool -> N -> path -> option E)
+  forall (E : Type) (max : N) (vis : path -> bool) (pol : N -> bool -> N -> path -> option E)
          (ls : list label),
+    pol_marks_after_accept E (pol 0) ->
     truthful_run E ByNet false max (MAXOK max) vis pol (state0 E) ls ->
-    ~ Known_C01_llgr ls ->
     ~ Known_C01_refresh_race E ByNet false max (MAXOK max) vis pol (state0 E) ls ->
     let s := run E ByNet false max (MAXOK max) vis pol ls in
     established E s ->
@@ -1645,42 +1996,46 @@ Theorem C01_no_lost_withdrawal_outside_known :
                 kfind k (fresh E ByNet false max (MAXOK max) vis pol s) = None ->
                 withdrawal_pending E s k \/ change_undelivered E s k.
 Proof.
-  intros E max vis pol ls Ht Hl Hr s He k e Hv Hf. eapply no_lost; eauto.
-  apply C01_export_inv_preserved.
-  clear s He Hv Hf. revert Ht Hl Hr. generalize (state0 E).
-  induction ls as [|l ls IH]; intros s0 Ht Hl Hr; cbn [ok_run]; auto.
-  cbn [truthful_run Known_C01_llgr Known_C01_refresh_race] in *.
-  destruct Ht as [Ht1 Ht2]. split.
-  - split; [auto|split]; tauto.
-  - apply IH; tauto.
+  intros E max vis pol ls Hpa Ht Hr s He k e Hv Hf. eapply (no_lost E max vis (pol 0) Hpa pol 0 eq_refl); eauto.
+  apply C01_export_inv_preserved; auto. apply ok_of_truthful; auto.
 Qed.
 
-(* the model's Register dump is the closed form of the export rules *)
+(* the model's Register dump is the closed form of the export rules, every route carrying
+   the live LLGR-stale flag of its source *)
 Theorem C01_fresh_is_export_rules :
-  forall (E : Type) (max : N) (vis : path -> bool) (pol : bool -> N -> path -> option E)
+  forall (E : Type) (max : N) (vis : path -> bool) (pol : N -> bool -> N -> path -> option E)
          (ls : list label),
+    pol_marks_after_accept E (pol 0) ->
     ok_run E ByNet false max (MAXOK max) vis pol (state0 E) ls ->
     let s := run E ByNet false max (MAXOK max) vis pol ls in
     forall k, kfind k (fresh E ByNet false max (MAXOK max) vis pol s)
-              = fresh_at E max vis pol (s_rib s) k.
+              = fresh_at E max vis (pol 0) (live (s_llgr s)) (s_rib s) k.
 Proof.
-  intros E max vis pol ls Hok s k. apply fresh_closed. apply C01_export_inv_preserved; auto.
+  intros E max vis pol ls Hpa Hok s k. apply (fresh_closed E max vis (pol 0) Hpa pol 0 eq_refl); auto.
+  apply C01_export_inv_preserved; auto.
 Qed.
 
 (* ------------------------------------------------------------ witnesses *)
 (* Concrete instance used by the correspondence cases (Model/ExportTx.v, cfg). *)
-Definition P (pid src tok : N) : path := {| p_pid := pid; p_src := src; p_tok := tok |}.
+Definition P (pid src tok : N) : path := {| p_pid := pid; p_src := src; p_tok := tok; p_mark := false |}.
+Definition PM (pid src tok : N) : path := {| p_pid := pid; p_src := src; p_tok := tok; p_mark := true |}.
 
 Definition crun (g : cfg) (ls : list label) : state CE :=
-  run CE (g_keying g) (g_limited g) (g_max g) (g_aptx g) (cvis g) (cpol g) ls.
+  run CE (g_keying g) (g_limited g) (g_max g) (g_aptx g) (cvis g) (cpolv g) ls.
 Definition cfresh (g : cfg) (s : state CE) : list (key * CE) :=
-  fresh CE (g_keying g) (g_limited g) (g_max g) (g_aptx g) (cvis g) (cpol g) s.
+  fresh CE (g_keying g) (g_limited g) (g_max g) (g_aptx g) (cvis g) (cpolv g) s.
 
 Definition G (k : keying) (lim : bool) (max : N) (hidden : list N) : cfg :=
   {| g_keying := k; g_limited := lim; g_max := max; g_aptx := negb (max =? 1);
      g_hidden := hidden; g_rej := [] |}.
 
-(* (a) the code before fix 84b466b (PendingTx keyed by dest_id): prefix 1 is advertised,
+Lemma cpol_marks_after_accept : forall g, pol_marks_after_accept CE (cpolv g 0).
+Proof.
+  intros g b net q. unfold cpolv, cpol. cbn [N.eqb].
+  destruct (memN (p_tok q) (g_rej g)); split; auto; discriminate.
+Qed.
+
+(* (a) the code before fix ee21a37 (PendingTx keyed by dest_id): prefix 1 is advertised,
    removed, and prefix 0 is created and takes the freed dest_id 0 before the flush *)
 Definition w_idreuse : list label :=
   [RibSet 1 true true None [P 1 0 2]; Register; RibFree 1 true;
@@ -1708,7 +2063,7 @@ Example C01_idreuse_fixed :
   cfresh g s = [((0, 0), (0, 2, 0))].
 Proof. cbv zeta. repeat split; vm_compute; reflexivity. Qed.
 
-(* (b) the code before fix b76cfd5 (dump truncated before the visibility filters):
+(* (b) the code before fix fcdcf73 (dump truncated before the visibility filters):
    send-max 2, the best of three candidates is invisible to the neighbour *)
 Definition w_limited : list label :=
   [Register; RibSet 0 true true None [P 1 0 1]; RibSet 0 false true None [P 1 0 1; P 2 1 2];
@@ -1717,30 +2072,55 @@ Definition w_limited : list label :=
 Lemma C01_quiescent_view_eq_fresh_refuted_truncated_dump :
   let g := G ByNet true 2 [0] in
   let s := crun g w_limited in
-  established CE s /\ quiescent CE s /\ ~ Known_C01_llgr w_limited /\
+  established CE s /\ quiescent CE s /\
   exists k, kfind k (view CE s) <> kfind k (cfresh g s).
 Proof.
   cbv zeta. split; [vm_compute; reflexivity|]. split; [vm_compute; repeat split; reflexivity|].
-  split.
-  - cbn. intros H. repeat (destruct H as [[? H]|H]; [discriminate|]). exact H.
-  - exists (0, 2). vm_compute. discriminate.
+  exists (0, 2). vm_compute. discriminate.
 Qed.
 
-(* (c) open finding C01-llgr-stale-not-resent, on the fixed code *)
-Definition w_llgr : list label :=
-  [RibSet 0 true true None [P 1 2 2]; Register; Flush; LlgrFlip 2 true;
-   RibSet 0 false true None [P 1 2 2]; Deliver; Flush].
+(* (c) the RIB before fix d9feca9: restale_llgr left the only (best) path in place and
+   reported best_changed = false, replaced = None.  That change is not truthful (the exported
+   form of the path changed), and the view does not converge. *)
+Definition w_llgr_old : list label :=
+  [RibSet 0 true true None [P 1 2 2]; Register; Flush;
+   LlgrMark 2 [(0, false, true, None, [PM 1 2 2])]; Deliver; Flush].
 
-Lemma C01_quiescent_view_eq_fresh_refuted_llgr :
+Lemma C01_quiescent_view_eq_fresh_refuted_unreported_llgr :
   let g := G ByNet false 1 [] in
-  let s := crun g w_llgr in
-  Known_C01_llgr w_llgr /\ established CE s /\ quiescent CE s /\
+  let s := crun g w_llgr_old in
+  established CE s /\ quiescent CE s /\
   exists k, kfind k (view CE s) <> kfind k (cfresh g s).
 Proof.
-  cbv zeta. split.
-  - cbn. right; right; right; left. exists 2; reflexivity.
-  - split; [vm_compute; reflexivity|]. split; [vm_compute; repeat split; reflexivity|].
-    exists (0, 0). vm_compute. discriminate.
+  cbv zeta. split; [vm_compute; reflexivity|]. split; [vm_compute; repeat split; reflexivity|].
+  exists (0, 0). vm_compute. discriminate.
+Qed.
+
+(* the change stream of the fixed RIB for the same history: best_changed, replaced = Some 1 *)
+Definition w_llgr_new : list label :=
+  [RibSet 0 true true None [P 1 2 2]; Register; Flush;
+   LlgrMark 2 [(0, true, true, Some 1, [PM 1 2 2])]; Deliver; Flush].
+
+Example C01_llgr_fixed :
+  let g := G ByNet false 1 [] in
+  let s := crun g w_llgr_new in
+  truthful_run CE ByNet false 1 false (cvis g) (cpolv g) (state0 CE) w_llgr_new /\
+  established CE s /\ quiescent CE s /\
+  view CE s = [((0, 0), (2, 2, 1))] /\ cfresh g s = [((0, 0), (2, 2, 1))].
+Proof.
+  cbv zeta. split; [|repeat split; vm_compute; reflexivity].
+  cbn [truthful_run w_llgr_new]. repeat split; try discriminate; try exact I.
+  all: vm_compute.
+  all: try (repeat constructor; cbn; intuition discriminate).
+  all: try reflexivity.
+  all: try (intros x x0 Hx Hx0 He;
+         repeat (destruct Hx as [Hx|Hx]; [subst x|]); try contradiction;
+         repeat (destruct Hx0 as [Hx0|Hx0]; [subst x0|]); try contradiction;
+         cbn in He; try discriminate; auto).
+  all: try (intros q Hq; repeat (destruct Hq as [Hq|Hq]; [subst q|]); try contradiction; reflexivity).
+  all: try (intros q Hq Hm; repeat (destruct Hq as [Hq|Hq]; [subst q|]); try contradiction; try discriminate; reflexivity).
+  all: try (intros d q Hd Hq; repeat (destruct Hd as [Hd|Hd]; [subst d|]); try contradiction;
+            repeat (destruct Hq as [Hq|Hq]; [subst q|]); try contradiction; reflexivity).
 Qed.
 
 (* (d) open finding C01-refresh-race, on the fixed code: the refresh runs while the removal
@@ -1752,7 +2132,7 @@ Definition w_race : list label :=
 Lemma C01_no_lost_withdrawal_refuted_refresh_race :
   let g := G ByNet false 2 [1] in
   let s := crun g w_race in
-  Known_C01_refresh_race CE ByNet false 2 true (cvis g) (cpol g) (state0 CE) w_race /\
+  Known_C01_refresh_race CE ByNet false 2 true (cvis g) (cpolv g) (state0 CE) w_race /\
   established CE s /\ quiescent CE s /\
   exists k e, kfind k (view CE s) = Some e /\ kfind k (cfresh g s) = None /\
               ~ withdrawal_pending CE s k /\ ~ change_undelivered CE s k.
@@ -1768,35 +2148,40 @@ Proof.
 Qed.
 
 (* ------------------------------------------------------------ non-vacuity *)
-(* A history that satisfies every hypothesis of the theorems (truthful changes, no LLGR
-   flip, refresh only with an empty channel), ends established and quiescent with a
-   non-empty view, and exercises id recycling, a replaced path and a refresh. *)
+(* A history that satisfies every hypothesis of the theorems (truthful changes, refresh only
+   with an empty channel), ends established and quiescent with a non-empty view, and
+   exercises id recycling, a replaced path, an LLGR marking and a refresh. *)
 Definition w_ok : list label :=
   [RibSet 1 true true None [P 1 0 2]; Register; RibFree 1 true;
    RibSet 0 true true None [P 1 0 2]; RibSet 0 false true None [P 1 0 2; P 2 1 3];
    RibSet 0 true true (Some 1) [P 1 0 1; P 2 1 3];
-   Deliver; Deliver; Deliver; Deliver; Refresh; Flush].
+   Deliver; Deliver; Deliver; Deliver; Refresh;
+   LlgrMark 1 [(0, false, true, Some 2, [P 1 0 1; PM 2 1 3])]; Deliver; Flush].
 
 Example C01_hypotheses_satisfiable :
   let max := 2 in
   let vis := cvis (G ByNet false max []) in
-  let pol := cpol (G ByNet false max []) in
+  let pol := cpolv (G ByNet false max []) in
+  pol_marks_after_accept CE (pol 0) /\
   truthful_run CE ByNet false max (MAXOK max) vis pol (state0 CE) w_ok /\
-  ~ Known_C01_llgr w_ok /\
   ~ Known_C01_refresh_race CE ByNet false max (MAXOK max) vis pol (state0 CE) w_ok /\
   let s := run CE ByNet false max (MAXOK max) vis pol w_ok in
   established CE s /\ quiescent CE s /\
-  view CE s = [((0, 2), (1, 3, 0)); ((0, 1), (0, 1, 0))].
+  view CE s = [((0, 1), (0, 1, 0)); ((0, 2), (1, 3, 1))].
 Proof.
-  cbv zeta. split; [|split; [|split; [|split; [|split]]]].
+  cbv zeta. split; [apply cpol_marks_after_accept|]. split; [|split; [|split; [|split]]].
   - cbn [truthful_run w_ok]. repeat split; try discriminate; try exact I.
     all: vm_compute.
     all: try (repeat constructor; cbn; intuition discriminate).
-    all: intros x x0 Hx Hx0 He;
+    all: try reflexivity.
+    all: try (intros x x0 Hx Hx0 He;
          repeat (destruct Hx as [Hx|Hx]; [subst x|]); try contradiction;
          repeat (destruct Hx0 as [Hx0|Hx0]; [subst x0|]); try contradiction;
-         cbn in He; try discriminate; auto.
-  - cbn. intros H. repeat (destruct H as [[? H]|H]; [discriminate|]). exact H.
+         cbn in He; try discriminate; auto).
+    all: try (intros q Hq; repeat (destruct Hq as [Hq|Hq]; [subst q|]); try contradiction; reflexivity).
+    all: try (intros q Hq Hm; repeat (destruct Hq as [Hq|Hq]; [subst q|]); try contradiction; try discriminate; reflexivity).
+    all: try (intros d q Hd Hq; repeat (destruct Hd as [Hd|Hd]; [subst d|]); try contradiction;
+              repeat (destruct Hq as [Hq|Hq]; [subst q|]); try contradiction; reflexivity).
   - cbn [Known_C01_refresh_race w_ok]. intros H.
     repeat (destruct H as [[H _]|H]; [discriminate|]).
     destruct H as [[_ H]|H]; [apply H; vm_compute; reflexivity|].
